@@ -1,17 +1,25 @@
 """C07 — a load's result depends on its input alone: no history or interleaving effects.
 
-Tie = translator + correspondence:
-  * regenerate(): translators/glue_extract.py scans the loader / network-builder modules of fw.REPO's current tree for
-    shared mutable variables and per-entry read-before-write / write summaries -> lean/NmlVerif/Gen/Glue.lean; the Lean
-    obligation `c07_table_ok` (Props/C07Gen.lean) fails on any violating variable outside `Known`.
-  * run(): (a) HISTORY oracle on the real code: every loader entry point on generated files (XML, HDF5, includes,
-    strings, optimized, array morphologies, parser-driven builds), repeated and after other files / other library
-    use, each result compared with the result of the same call in a FRESH process;
-    (b) INTERLEAVING oracle: handler-call sequences recorded from NeuroMLHdf5Parser / NeuroMLXMLParser solo runs are
-    replayed against two fresh NetworkBuilder instances in generated interleavings (handler-call granularity, common
-    population / projection / input-list ids), each document compared with its solo document;
-    (c) correspondence: the same interleavings through the Lean model (Drivers/C07.lean, table-derived sharing
-    configuration) must give the documents the real builders gave.
+Tie = translators + correspondence:
+  * regenerate(): translators/glue_extract.py scans EVERY neuroml module a loader can import (import closure, checked in
+    Lean: `c07_reach_scanned`) for shared mutable variables -- module globals, class attributes, mutable defaults, memo
+    caches, configuration switches, and process-global state of other libraries reached through library calls (kind
+    `external`: warnings filters, logging configuration, PyTables' open-file registry) -- and per-entry read-before-write
+    / write summaries -> lean/NmlVerif/Gen/Glue.lean; `c07_table_ok` (Props/C07Gen.lean) fails on any violating variable
+    outside Known ++ Benign ++ External ++ Env.  translators/handler_extract.py extracts the per-OBJECT attributes of
+    NetworkBuilder / NeuroMLHdf5Parser / NeuroMLXMLParser -> Gen/Handlers.lean: every attribute a handler touches is
+    instance-private (`c07_handlers_private`), the handlers' access pattern is the hand model's (`c07_handler_use_gen`),
+    and what a REUSED object may see of its earlier uses (`c07_reuse_table_ok`).
+  * run(): (a) HISTORY oracle on the real code: every loader entry point on generated files, repeated and after other
+    files / other library use / flips of the build-time-validation switch / with ONE parser or builder object used
+    for several files, each result compared with the result of the same call in a FRESH process (same switch);
+    (b) INTERLEAVING oracles: ALL merges of two hand-made short handler-call sequences (one feature per builder table);
+    sequences recorded from the two parsers replayed on two or three fresh builders under schedules from 11 strata;
+    (c) OVERLAP oracle: loads that are active at the same time -- an HDF5 file including an HDF5 file, a load started
+    from inside a handler call of another load (depth 1-2), the REAL parsers of 2-3 builds stepped in an interleaving
+    (one thread each, the turn handed over at every handler call) -- each compared with the load made alone;
+    (d) correspondence: the same merges / schedules / document sequences / file sequences through the Lean models
+    (Drivers/C07.lean: NetBuilder with the extracted sharing configuration and reset variant, ParserReuse).
 """
 import contextlib
 import copy
@@ -28,38 +36,60 @@ from concurrent.futures import ThreadPoolExecutor
 
 import fw
 
+import logging
+logging.disable(logging.CRITICAL)      # the library logs through handlers bound to the real stderr
+
 LEAN_PROPS = ["NmlVerif.Props.C07", "NmlVerif.Props.C07Gen"]
 LEVEL = "proof"
 RULE = ("history stream: sessions of 8-16 actions over two generated file sets with common ids (network XML/HDF5 "
-        "files with instance/size populations, chemical/electrical/continuous projections, input lists; include "
-        "chains incl. an HDF5 include; strings with base_path; optimized HDF5; array morphologies; parser-driven "
-        "NetworkBuilder builds; dangling-reference files; files rewritten in place; returned documents mutated after "
-        "dumping; hand-built optimized containers used between loads), every action's deep dump compared with the "
-        "dump of the same action in a fresh process; non-trivial = the action is a repeat or follows a load of another "
-        "file. interleaving stream: two recorded handler-call sequences (HDF5- and XML-parser driven, common ids) "
-        "replayed on two fresh builders under generated schedules; non-trivial = both sequences declare a common "
-        "population/projection/input-list id and the schedule really alternates; distinct = distinct canonical "
-        "(case, schedule) / (session, step)")
+        "files with instance/size populations, chemical/electrical/continuous projections, input lists, explicit "
+        "inputs; include chains incl. an HDF5 include; strings with base_path; optimized HDF5; HDF5 without embedded "
+        "XML / without a network; array morphologies; parser-driven NetworkBuilder builds; dangling-reference files; "
+        "error paths (not NeuroML, missing file, unknown include extension, invalid document id); files rewritten in "
+        "place; returned documents mutated after dumping; hand-built optimized containers used between loads; the "
+        "build-time-validation switch flipped between loads; ONE parser / builder object used for several files), every "
+        "action's deep dump compared with the dump of the same action in a fresh process under the same switch; "
+        "non-trivial = the action is a repeat or follows a load of another file. interleaving streams: (crafted) ALL "
+        "merges of two hand-made short handler-call sequences with the same ids and different content, one feature per "
+        "table of the builder; (recorded) two or three handler-call sequences recorded from NeuroMLHdf5Parser / "
+        "NeuroMLXMLParser (also: the same document through both parsers, old-interface handlers) replayed on fresh "
+        "builders under schedules drawn from 11 strata; non-trivial = all sequences declare a common population / "
+        "projection / input-list id and the schedule really alternates. reuse streams: 2-3 documents on one builder, "
+        "2-4 files through one HDF5 parser object, each compared with new objects and with the model. overlap stream: "
+        "HDF5 including HDF5, a load inside a handler call of another load (depth 1-2), the real parsers of 2-3 builds "
+        "stepped at handler-call granularity, each load compared with the same load alone; distinct = "
+        "distinct canonical (case, schedule) / (session, step)")
 TRUST = [
     "translators/glue_extract.py (AST scan: name-based call/attribute resolution inside the scanned modules, alias and "
-    "escape analysis, whitelists of pure builtins / reader methods / immutable constructors) is validated by the "
-    "history and interleaving streams and by mutation testing, not verified; state kept OUTSIDE the scanned modules "
-    "(warnings filters, logging configuration, PyTables' open-file registry, lxml) is not in the table",
+    "escape analysis, whitelists of pure builtins / reader methods / immutable constructors) and "
+    "translators/handler_extract.py (per-object attribute analysis; methods called on attribute objects other than the "
+    "known container mutators are taken as non-mutating, `netHandler.*` delegates are listed) are validated by the "
+    "history, interleaving, overlap and reuse streams and by mutation testing, not verified; process-global state of "
+    "OTHER libraries is in the table only where a loader reaches it through a listed configuration call or through a "
+    "private member of an imported module (kind `external`, reviewed list `External`); what those libraries do "
+    "internally (lxml, HDF5) is not -- `c07_reach_scanned` checks that every neuroml module a loader can import IS "
+    "scanned",
     "the generic theorems speak about any semantics that Respects the extracted summaries; that the real code does is "
     "the translator's claim",
-    "Model/NetBuilder.lean is a hand model of NetworkBuilder's handler methods tied by correspondence only",
+    "Model/NetBuilder.lean is a hand model of NetworkBuilder's handler methods tied by correspondence (all merges of "
+    "short sequences, recorded sequences, document sequences on one builder) and by `c07_handler_use_gen` (extracted "
+    "access pattern of every handler = the model's); Model/ParserReuse.lean models two attributes of the HDF5 parser",
 ]
 ASSUMPTIONS = [
     "entry points are called sequentially in one process (no threads); 'at the same time' means interleaved handler "
-    "calls of two builders, as in the property's quantifier",
+    "calls of two (or more) builders, as in the property's quantifier: handler-call granularity",
+    "the value of the configuration switch neuroml.build_time_validation.ENABLED is part of a load's input (hypothesis "
+    "`henv` of c07_loaders_history_independent; example: a document whose id is no NmlId loads only while it is off)",
     "class objects are not rebound through variables holding a class (e.g. k = NetworkBuilder; k.x = ..) and shared "
     "state is not reached through getattr with computed names on classes/modules: such constructs are flagged opaque "
     "only in their syntactic forms (setattr on a class/module, globals()[..] =, __dict__ writes, exec/eval)",
     "files do not change while a load is running",
 ]
-TABLE_OBLIGATIONS = ["violations(Gen.Glue.table) ⊆ Known (c07_table_ok, decide +kernel)"]
+TABLE_OBLIGATIONS = ["violations(Gen.Glue.table) ⊆ Known ++ Benign ++ Env (c07_table_ok, decide +kernel)",
+                     "violations(Gen.Handlers.reuseTable) ⊆ KnownReuse (c07_reuse_table_ok, decide)"]
 
 GLUE_LEAN = os.path.join(fw.LEAN, "NmlVerif", "Gen", "Glue.lean")
+HANDLERS_LEAN = os.path.join(fw.LEAN, "NmlVerif", "Gen", "Handlers.lean")
 HARNESS = os.path.dirname(os.path.dirname(os.path.abspath(__file__)))
 _GLUE = {}
 
@@ -74,18 +104,20 @@ def _tree_key(repo):
             h.update(m.encode() + b"\0" + fh.read() + b"\0")
     with open(G.__file__, "rb") as fh:
         h.update(fh.read())
+    h.update(repr(G.import_closure(repo)).encode())      # a new module in the reach changes the table
     return h.hexdigest(), G
 
 
 def lean_list(name):
     src = open(fw.module_path("NmlVerif.Props.C07Gen")).read()
-    m = re.search(r"def %s : List String :=\s*\[(.*?)\]" % name, src, re.S)
+    m = re.search(r"def %s : List String :=\s*\[(.*?)\]\s*\n" % name, src, re.S)
     return sorted(re.findall(r'"([^"]*)"', m.group(1))) if m else None
 
 
 def regenerate(ctx):
-    """(re)write Gen/Glue.lean from fw.REPO's current tree.  The analysis is a pure function of the scanned sources
-    and of the translator, so its output is memoised by their content hash (in lean/.lake, never committed)."""
+    """(re)write Gen/Glue.lean and Gen/Handlers.lean from fw.REPO's current tree.  The glue analysis is a pure function
+    of the scanned sources and of the translator, so its output is memoised by their content hash (in lean/.lake, never
+    committed); the handler analysis takes a fraction of a second and always runs."""
     key, G = _tree_key(fw.REPO)
     cdir = os.path.join(fw.LEAN, ".lake", "c07_glue_cache")
     os.makedirs(cdir, exist_ok=True)
@@ -102,21 +134,49 @@ def regenerate(ctx):
         shutil.copyfile(GLUE_LEAN, cl)
     viol = G.violations(side)
     _GLUE.update(side=side, violating=sorted({v for _, v in viol}))
-    ctx.extra["glue"] = dict(stats=side["stats"], violating_vars=_GLUE["violating"],
-                             written=sorted({v for e in side["entries"] for v in e["writes"]}),
-                             opaque=side["gaps"])
+    written = sorted({v for e in side["entries"] for v in e["writes"]})
+    inv = {}
+    for v in side["vars"]:
+        if v["mut"] in ("mut", "unk") or v["kind"] in ("mutDefault", "opaque"):
+            k = "%s:%s" % (v["kind"], "written" if v["name"] in written else
+                           ("some code may write it, no entry does" if v.get("candidate") else "never written"))
+            inv[k] = inv.get(k, 0) + 1
+    ctx.extra["glue"] = dict(stats=side["stats"], violating_vars=_GLUE["violating"], written=written, opaque=side["gaps"],
+                             reach=side.get("reach"), scanned=side.get("scanned"), mutable_shared_inventory=inv,
+                             env_entries=[e["name"] for e in side["entries"] if e.get("env")])
     gaps = ["opaque construct: " + g for g in side["gaps"]]
     known_json = sorted(k.split("C07:shared-mutable:", 1)[1] for k in fw.known_findings("C07")
                         if k.startswith("C07:shared-mutable:"))
-    kl, benign = lean_list("Known"), lean_list("Benign") or []
+    kl, benign, env = lean_list("Known"), lean_list("Benign") or [], lean_list("Env") or []
+    external = lean_list("External") or []
     ctx.extra["glue"]["benign_memo_caches"] = benign
+    ctx.extra["glue"]["configuration_switches"] = env
+    ctx.extra["glue"]["external_state_reviewed"] = external
+    ctx.extra["glue"]["external_state_found"] = sorted(v["name"] for v in side["vars"] if v["kind"] == "external")
+    benign = benign + external
     if kl != known_json:
         gaps.append("Known list in Props/C07Gen.lean %r differs from known_findings.d/C07.json %r" % (kl, known_json))
-    stale = [b for b in benign if b not in _GLUE["violating"]]
+    stale = [b for b in benign + env if b not in _GLUE["violating"]]
     if stale:
-        ctx.notes.append("Benign entries no longer reported by the scan (can be removed): %r" % stale)
-    _GLUE["unexpected"] = [v for v in _GLUE["violating"] if v not in benign and v not in known_json]
+        ctx.notes.append("Benign / Env entries no longer reported by the scan (can be removed): %r" % stale)
+    _GLUE["unexpected"] = [v for v in _GLUE["violating"] if v not in benign and v not in env and v not in known_json]
     ctx.extra["glue"]["unexpected_violating_vars"] = _GLUE["unexpected"]
+    # ---- per-object state of the builder and the parsers
+    import handler_extract as H
+    hside = H.emit(H.analyse(fw.REPO), HANDLERS_LEAN)
+    _GLUE["handlers"] = hside
+    gaps += ["handler translator: " + g for g in hside["gaps"]]
+    reuse_json = sorted({v for k, e in fw.known_findings("C07").items() if k.startswith("C07:reuse:")
+                         for v in e.get("vars", [])})
+    rl = lean_list("KnownReuse")
+    if rl != reuse_json:
+        gaps.append("KnownReuse list in Props/C07Gen.lean %r differs from the `vars` of the C07:reuse:* findings in "
+                    "known_findings.d/C07.json %r" % (rl, reuse_json))
+    ctx.extra["handlers"] = dict(shared_tables=hside["shared_tables"], reuse_violating=hside["violating"],
+                                 unexpected_reuse_violating=[v for v in hside["violating"] if v not in reuse_json],
+                                 builder_stale_after_document_start=hside["builder_stale"],
+                                 parser_stale_after_parse=hside["parser_stale"], use=hside["use"],
+                                 delegates=hside["delegates"], mutable_defaults=hside["mutable_defaults"])
     return gaps
 
 
@@ -125,7 +185,7 @@ def cell_path(pop, i, comp, inst):
     return "../%s/%i/%s" % (pop, i, comp) if inst else "../%s[%i]" % (pop, i)
 
 
-def gen_net(rng, tag, rich=True, dangling=False):
+def gen_net(rng, tag, rich=True, dangling=False, explicit=False):
     """a network document whose ids are drawn from small pools, so that two documents collide on purpose"""
     import neuroml as n
     d = n.NeuroMLDocument(id="doc" + tag)
@@ -186,7 +246,7 @@ def gen_net(rng, tag, rich=True, dangling=False):
                      pre_fraction_along=rng.choice([0.5, 0.25]), post_fraction_along=0.5)
             if wd:
                 pr.connection_wds.append(n.ConnectionWD(weight=rng.choice([1.0, 0.5, 2.0]),
-                                                        delay="%dms" % rng.choice([0, 1, 5]), **a))
+                                                        delay=rng.choice(["0ms", "1ms", "5ms", "0.002s", "0s"]), **a))
             else:
                 pr.connections.append(n.Connection(**a))
         net.projections.append(pr)
@@ -244,6 +304,9 @@ def gen_net(rng, tag, rich=True, dangling=False):
             else:
                 il.input_ws.append(n.InputW(weight=rng.choice([0.5, 2.0]), **a))
         net.input_lists.append(il)
+    if explicit and not dangling and rng.random() < 0.5:     # only the XML parser turns these into input lists
+        tp = pick()
+        net.explicit_inputs.append(n.ExplicitInput(target="%s[%d]" % (tp[0], rng.randrange(tp[3])), input="pg0"))
     return d
 
 
@@ -301,6 +364,30 @@ def write_fileset(rng, root, tag, seedling):
         pp.instances.append(ins)
     nw.populations.append(pp)
     W.NeuroMLWriter.write(netinc, os.path.join(d, "netinc.nml"))
+    # second pass: a network file with explicit inputs (XML only), an HDF5 file WITHOUT the embedded XML, an HDF5 file
+    # without a network group, a document whose id is no NmlId (build-time validation refuses it while the switch is
+    # on), a well-formed XML file that is no NeuroML, an include of a file with an unknown extension
+    W.NeuroMLWriter.write(gen_net(r, tag, rich=True, explicit=True), os.path.join(d, "expl.nml"))
+    W.NeuroMLHdf5Writer.write(simple, os.path.join(d, "noembed.nml.h5"), embed_xml=False)
+    nonet = n.NeuroMLDocument(id="nonet" + tag)
+    nonet.pulse_generators.append(n.PulseGenerator(id="pgN", delay="0ms", duration="%dms" % r.randint(1, 9),
+                                                   amplitude="1nA"))
+    W.NeuroMLHdf5Writer.write(nonet, os.path.join(d, "nonet.nml.h5"))
+    badid = gen_net(r, tag, rich=False)
+    badid.id = "1" + tag
+    W.NeuroMLHdf5Writer.write(badid, os.path.join(d, "badid.nml.h5"))
+    W.NeuroMLWriter.write(badid, os.path.join(d, "badid.nml"))
+    h5inc = gen_net(r, tag + "i", rich=False)
+    W.NeuroMLHdf5Writer.write(h5inc, os.path.join(d, "h5inc_noinc.nml.h5"))
+    h5inc.includes.append(n.IncludeType(href="simple.nml.h5"))
+    W.NeuroMLHdf5Writer.write(h5inc, os.path.join(d, "h5inc.nml.h5"))
+    with open(os.path.join(d, "notnml.xml"), "w") as fh:
+        fh.write('<?xml version="1.0"?>\n<lems><Target component="x%s"/></lems>\n' % tag)
+    badext = n.NeuroMLDocument(id="badext" + tag)
+    badext.includes.append(n.IncludeType(href="notnml.txt"))
+    W.NeuroMLWriter.write(badext, os.path.join(d, "badext.nml"))
+    with open(os.path.join(d, "notnml.txt"), "w") as fh:
+        fh.write("x")
     # an array morphology file
     try:
         import numpy as np
@@ -382,13 +469,105 @@ ENTRIES = ["NeuroMLLoader.load", "NeuroMLHdf5Loader.load", "NeuroMLHdf5Loader.lo
            "read_neuroml2_string", "read_neuroml2_string[includes]", "ArrayMorphLoader.load",
            "NeuroMLXMLParser+NetworkBuilder", "NeuroMLHdf5Parser+NetworkBuilder", "NeuroMLHdf5Loader.load[bad]",
            "NeuroMLXMLParser+NetworkBuilder[bad]", "read_neuroml2_file[xml-simple]",
-           "NeuroMLXMLParser+NetworkBuilder[includes]", "read_neuroml2_file[netinc]"]
+           "NeuroMLXMLParser+NetworkBuilder[includes]", "read_neuroml2_file[netinc]",
+           # second pass
+           "NeuroMLXMLParser+NetworkBuilder[expl]", "NeuroMLHdf5Loader.load[noembed]", "NeuroMLHdf5Loader.load[nonet]",
+           "NeuroMLHdf5Loader.load[nonet,optimized]", "NeuroMLHdf5Loader.load[badid]",
+           "NeuroMLXMLParser+NetworkBuilder[badid]", "NeuroMLLoader.load[notnml]", "read_neuroml2_file[missing]",
+           "read_neuroml2_file[badext]", "read_neuroml2_file[noincludes]", "_read_neuroml2[direct]",
+           "read_neuroml2_string[h5-include,optimized]", "NeuroMLHdf5Loader.load[h5inc]", "read_neuroml2_file[h5inc]"]
+
+# one OBJECT used for several files: `reuse:<objects>:<file>`; the objects live as long as the session
+REUSE_OBJS = {
+    "xml-same": ["net", "simple", "bad", "expl"],          # one NeuroMLXMLParser, one NetworkBuilder
+    "xml-fresh": ["net", "simple", "bad", "expl"],         # one NeuroMLXMLParser, a new NetworkBuilder per file
+    "h5-same": ["net", "simple", "bad", "noembed", "nonet"],     # one NeuroMLHdf5Parser, one NetworkBuilder
+    "h5-fresh": ["net", "simple", "noembed", "nonet"],     # one NeuroMLHdf5Parser, a new NetworkBuilder per file
+    "h5-opt": ["simple", "noembed", "nonet"],              # one NeuroMLHdf5Parser(None, optimized=True)
+    "builder-h5": ["net", "simple", "bad", "noembed"],     # a new NeuroMLHdf5Parser per file, one NetworkBuilder
+}
+REUSE_ENTRIES = ["reuse:%s:%s" % (o, f) for o, fs in REUSE_OBJS.items() for f in fs]
+# which open finding a difference of a reuse entry belongs to (a difference of any other entry is a violation)
+REUSE_KEY = {"xml-same": "NetworkBuilder", "builder-h5": "NetworkBuilder", "h5-fresh": "NeuroMLHdf5Parser",
+             "h5-opt": "NeuroMLHdf5Parser", "h5-same": "NeuroMLHdf5Parser+NetworkBuilder",
+             "xml-fresh": "NeuroMLXMLParser"}
 
 
-def perform(entry, d, cwd_neutral=True):
+def perform_reuse(entry, d, objs):
+    """one more file through the objects of `objs` (created on first use)"""
+    from neuroml.hdf5.NetworkBuilder import NetworkBuilder
+    from neuroml.hdf5.NeuroMLHdf5Parser import NeuroMLHdf5Parser
+    from neuroml.hdf5.NeuroMLXMLParser import NeuroMLXMLParser
+    from neuroml.utils import add_all_to_document
+    _, kind, f = entry.split(":")
+    if kind.startswith("xml"):
+        path = os.path.join(d, f + ".nml")
+        if kind not in objs:
+            b = NetworkBuilder()
+            objs[kind] = (NeuroMLXMLParser(b), b)
+        p, b = objs[kind]
+        if kind == "xml-fresh":
+            b = NetworkBuilder()
+            p.netHandler = b
+        p.parse(path)
+        return b.get_nml_doc()
+    path = os.path.join(d, f + ".nml.h5")
+    if kind == "h5-opt":
+        if kind not in objs:
+            objs[kind] = NeuroMLHdf5Parser(None, optimized=True)
+        objs[kind].parse(path)
+        return objs[kind].get_nml_doc()
+    if kind == "builder-h5":
+        if kind not in objs:
+            objs[kind] = NetworkBuilder()
+        b = objs[kind]
+        p = NeuroMLHdf5Parser(b)
+    else:
+        if kind not in objs:
+            b = NetworkBuilder()
+            objs[kind] = (NeuroMLHdf5Parser(b), b)
+        p, b = objs[kind]
+        if kind == "h5-fresh":
+            b = NetworkBuilder()
+            p.netHandler = b
+    p.parse(path)
+    doc = b.get_nml_doc()
+    if p.nml_doc_extra_elements:         # what NeuroMLHdf5Loader does with a parser and its builder
+        add_all_to_document(p.nml_doc_extra_elements, doc)
+    return doc
+
+
+def perform(entry, d, objs=None):
     """run one loader action on the file set in directory d; returns the loaded object or raises"""
     import neuroml.loaders as L
     p = lambda *a: os.path.join(d, *a)
+    if entry.startswith("reuse:"):
+        return perform_reuse(entry, d, objs if objs is not None else {})
+    if entry == "NeuroMLHdf5Loader.load[h5inc]":
+        return L.NeuroMLHdf5Loader.load(p("h5inc.nml.h5"))
+    if entry == "read_neuroml2_file[h5inc]":
+        return L.read_neuroml2_file(p("h5inc.nml.h5"), include_includes=True)
+    if entry == "NeuroMLHdf5Loader.load[noembed]":
+        return L.NeuroMLHdf5Loader.load(p("noembed.nml.h5"))
+    if entry == "NeuroMLHdf5Loader.load[nonet]":
+        return L.NeuroMLHdf5Loader.load(p("nonet.nml.h5"))
+    if entry == "NeuroMLHdf5Loader.load[nonet,optimized]":
+        return L.NeuroMLHdf5Loader.load(p("nonet.nml.h5"), optimized=True)
+    if entry == "NeuroMLHdf5Loader.load[badid]":
+        return L.NeuroMLHdf5Loader.load(p("badid.nml.h5"))
+    if entry == "NeuroMLLoader.load[notnml]":
+        return L.NeuroMLLoader.load(p("notnml.xml"))
+    if entry == "read_neuroml2_file[missing]":
+        return L.read_neuroml2_file(p("no_such_file.nml"))
+    if entry == "read_neuroml2_file[badext]":
+        return L.read_neuroml2_file(p("badext.nml"), include_includes=True)
+    if entry == "read_neuroml2_file[noincludes]":
+        return L.read_neuroml2_file(p("main.nml"), include_includes=False)
+    if entry == "_read_neuroml2[direct]":
+        return L._read_neuroml2(p("main.nml"), include_includes=True)
+    if entry == "read_neuroml2_string[h5-include,optimized]":
+        with open(p("main.nml")) as fh:
+            return L.read_neuroml2_string(fh.read(), include_includes=True, base_path=d, optimized=True)
     if entry == "NeuroMLLoader.load":
         return L.NeuroMLLoader.load(p("net.nml"))
     if entry == "NeuroMLHdf5Loader.load":
@@ -422,7 +601,9 @@ def perform(entry, d, cwd_neutral=True):
         from neuroml.hdf5.NeuroMLXMLParser import NeuroMLXMLParser
         b = NetworkBuilder()
         NeuroMLXMLParser(b).parse(p("bad.nml" if entry.endswith("[bad]") else
-                                    ("netinc.nml" if entry.endswith("[includes]") else "net.nml")))
+                                    ("netinc.nml" if entry.endswith("[includes]") else
+                                     ("expl.nml" if entry.endswith("[expl]") else
+                                      ("badid.nml" if entry.endswith("[badid]") else "net.nml")))))
         return b.get_nml_doc()
     if entry == "NeuroMLHdf5Parser+NetworkBuilder":
         from neuroml.hdf5.NetworkBuilder import NetworkBuilder
@@ -433,13 +614,23 @@ def perform(entry, d, cwd_neutral=True):
     raise ValueError(entry)
 
 
-def run_action(entry, d):
+def set_switch(on):
+    """the global build-time-validation switch (a configuration input of every load, see `Env` in Props/C07Gen.lean)"""
+    import neuroml
+    sink = io.StringIO()
+    with contextlib.redirect_stdout(sink), contextlib.redirect_stderr(sink):
+        (neuroml.enable_build_time_validation if on else neuroml.disable_build_time_validation)()
+
+
+def run_action(entry, d, objs=None, switch=None):
     """-> canonical result {"res": "ok", "dump":.., "xml": sha} | {"res": "exc:.."}; never raises"""
     out = None
     sink = io.StringIO()
+    if switch is not None:
+        set_switch(switch)
     with contextlib.redirect_stdout(sink), contextlib.redirect_stderr(sink):
         try:
-            doc = perform(entry, d)
+            doc = perform(entry, d, objs)
             dump = deep_dump(doc)
             try:
                 xml = hashlib.sha1(doc_xml(doc).encode()).hexdigest()
@@ -474,29 +665,59 @@ def _scribble(doc):
 
 
 def use_containers():
-    """other library use between loads: build an optimized population by hand and iterate it"""
+    """other library use between loads: build optimized containers by hand, iterate / print / extend them and write
+    them to an HDF5 file (whatever that does or raises is not the point: a later load must not notice)"""
     import neuroml as n
-    from neuroml.hdf5.NetworkContainer import InputListContainer, PopulationContainer, ProjectionContainer
+    import neuroml.writers as W
+    from neuroml.hdf5.NetworkContainer import (InputListContainer, NetworkContainer, PopulationContainer,
+                                               ProjectionContainer)
     sink = io.StringIO()
+    tmp = tempfile.mkdtemp(prefix="verif_c07u_")
     with contextlib.redirect_stdout(sink), contextlib.redirect_stderr(sink):
-        pc = PopulationContainer(id="hand", component="izzy")
-        for k in range(2):
-            inst = n.Instance(id=k)
-            inst.location = n.Location(x=1.0 * k, y=2.0, z=3.0)
-            pc.instances.append(inst)
-        for _ in pc.instances:
+        try:
+            pc = PopulationContainer(id="hand", component="izzy")
+            for k in range(2):
+                inst = n.Instance(id=k)
+                inst.location = n.Location(x=1.0 * k, y=2.0, z=3.0)
+                pc.instances.append(inst)
+            pc.instances.add_instance(2, 0.5, 0.5, 0.5)
+            for _ in pc.instances:
+                pass
+            prc = ProjectionContainer(id="hp", presynaptic_population="hand", postsynaptic_population="hand", synapse="s")
+            prc.connections.append(n.Connection(id=0, pre_cell_id="../hand/0/izzy", post_cell_id="../hand/1/izzy"))
+            prc.connections += [n.Connection(id=1, pre_cell_id="../hand/1/izzy", post_cell_id="../hand/0/izzy")]
+            for _ in prc.connections:
+                pass
+            ilc = InputListContainer(id="hil", component="pg", populations="hand")
+            ilc.input.append(n.Input(id=0, target="../hand/0/izzy", destination="synapses"))
+            for x in (pc, prc, ilc, pc.instances, prc.connections, ilc.input):
+                str(x)
+            it = iter(pc.instances)
+            it.next()
+            for bad in (lambda: pc.instances.__setitem__(0, None), lambda: pc.instances.__delitem__(0)):
+                try:
+                    bad()
+                except NotImplementedError:
+                    pass
+            net = NetworkContainer(id="handnet")
+            net.populations.append(pc)
+            net.projections.append(prc)
+            net.input_lists.append(ilc)
+            doc = n.NeuroMLDocument(id="handdoc")
+            doc.networks.append(net)
+            W.NeuroMLHdf5Writer.write(doc, os.path.join(tmp, "hand.nml.h5"))
+        except Exception:
             pass
-        prc = ProjectionContainer(id="hp", presynaptic_population="hand", postsynaptic_population="hand", synapse="s")
-        prc.connections.append(n.Connection(id=0, pre_cell_id="../hand/0/izzy", post_cell_id="../hand/1/izzy"))
-        for _ in prc.connections:
-            pass
+        finally:
+            _close_tables()
+            shutil.rmtree(tmp, ignore_errors=True)
 
 
-def fresh_reference(entry, d):
-    """the same action in a fresh interpreter"""
+def fresh_reference(entry, d, switch=True):
+    """the same action in a fresh interpreter (new objects, the given value of the configuration switch)"""
     code = ("import sys, json; sys.path.insert(0, %r); sys.path.insert(0, %r); sys.path.insert(0, %r); "
-            "from props import c07; print('@@' + json.dumps(c07.run_action(%r, %r)))") % (
-                HARNESS, os.path.join(HARNESS), fw.REPO, entry, d)
+            "from props import c07; print('@@' + json.dumps(c07.run_action(%r, %r, None, %r)))") % (
+                HARNESS, os.path.join(HARNESS), fw.REPO, entry, d, bool(switch))
     env = dict(os.environ)
     env["VERIF_REPO"] = fw.REPO
     p = subprocess.run(["/venv/bin/python", "-c", code], stdout=subprocess.PIPE, stderr=subprocess.PIPE, text=True,
@@ -531,21 +752,35 @@ def first_diff(a, b, path=""):
 
 # ------------------------------------------------------------------------------------------------ history stream
 def gen_session(rng, nsteps):
-    """a history: steps are ("load", set, entry) | ("rewrite", set) | ("use",)"""
+    """a history: steps are ("load", set, entry) | ("rewrite", set, seed) | ("use",) | ("toggle", on)"""
     seeds = {"A": rng.randrange(10 ** 6), "B": rng.randrange(10 ** 6)}
     steps = []
     pool = [e for e in ENTRIES]
     focus = rng.sample(pool, 3)
+    # one kind of reused objects per session, so that the same objects really see several files
+    reuse_kind = rng.choice(sorted(REUSE_OBJS))
+    reuse_pool = ["reuse:%s:%s" % (reuse_kind, f) for f in REUSE_OBJS[reuse_kind]]
+    style = rng.random()
     for i in range(nsteps):
         r = rng.random()
-        if r < 0.08:
+        if r < 0.07:
             steps.append(["use"])
-        elif r < 0.16:
+        elif r < 0.14:
             steps.append(["rewrite", rng.choice("AB"), rng.randrange(10 ** 6)])
+        elif r < 0.20:
+            steps.append(["toggle", rng.random() < 0.5])
+        elif style < 0.45 and r < 0.65:
+            steps.append(["load", rng.choice("AB"), rng.choice(reuse_pool)])
         else:
             e = rng.choice(focus) if rng.random() < 0.6 else rng.choice(pool)
             steps.append(["load", rng.choice("AB"), e])
     return {"seeds": seeds, "steps": steps}
+
+
+def history_key(entry):
+    if entry.startswith("reuse:"):
+        return "C07:reuse:" + REUSE_KEY[entry.split(":")[1]]
+    return "C07:history:" + entry
 
 
 def run_session(ctx, sess, pool):
@@ -561,10 +796,18 @@ def run_session(ctx, sess, pool):
         os.chdir(root)
         results, refjobs = [], {}
         loaded_before = []
+        objs = {}               # the session's long-lived parser / builder objects (reuse:* entries)
+        switch = True           # the configuration switch is part of the input of every load
+        set_switch(True)
         for si, st in enumerate(sess["steps"]):
             if st[0] == "use":
                 use_containers()
                 loaded_before.append("use")
+                continue
+            if st[0] == "toggle":
+                switch = bool(st[1])
+                set_switch(switch)
+                ctx.count("history:toggle")
                 continue
             if st[0] == "rewrite":
                 # the reference for the old content must be taken before the files change
@@ -577,38 +820,66 @@ def run_session(ctx, sess, pool):
                 version[st[1]] = st[2]
                 continue
             _, tag, entry = st
-            key = (tag, version[tag], entry)
+            key = (tag, version[tag], entry, switch)
             if key not in refjobs:
-                refjobs[key] = pool.submit(fresh_reference, entry, dirs[tag])
-                if any(k[0] == tag for k in refjobs):
-                    pass
-            got = run_action(entry, dirs[tag])
-            repeat = any(x == (tag, version[tag], entry) for x in loaded_before if x != "use")
-            other = any(x != (tag, version[tag], entry) for x in loaded_before)
+                refjobs[key] = pool.submit(fresh_reference, entry, dirs[tag], switch)
+            got = run_action(entry, dirs[tag], objs)
+            repeat = any(x == key[:3] for x in loaded_before if x != "use")
+            other = any(x != key[:3] for x in loaded_before)
             results.append((si, key, got, repeat, other))
-            loaded_before.append(key)
-            # a rewrite may follow: make sure the reference of this content is being computed now (it is: submitted)
+            loaded_before.append(key[:3])
         for si, key, got, repeat, other in results:
             ref = refjobs[key].result()
-            tag, ver, entry = key
+            tag, ver, entry, sw = key
             canon = {"seeds": sess["seeds"], "steps": sess["steps"][:si + 1]}
             ctx.seen(canon, nontrivial=(repeat or other))
-            ctx.count("history:" + entry)
+            ctx.count("history:" + (entry if not entry.startswith("reuse:") else "reuse:" + entry.split(":")[1]))
             ctx.count("history-res:" + got["res"].split(":")[0] + (":" + got["res"].split(":")[1] if got["res"] != "ok" else ""))
             if repeat:
                 ctx.count("history:repeat")
+            if not sw:
+                ctx.count("history:switch-off")
             if ref.get("res") == "subprocess-failed":
                 ctx.disagree("fresh-process", {"entry": entry}, ref, None)
                 continue
             if got != ref:
                 what = first_diff(got, ref) or "results differ"
-                ctx.fail("C07:history:" + entry,
+                ctx.fail(history_key(entry),
                          "%s gives a different result than in a fresh process (step %d of the session): %s" % (entry, si, what),
                          {"kind": "history", "session": {"seeds": sess["seeds"], "steps": sess["steps"][:si + 1]},
                           "diff": what, "in_process": got["res"], "fresh": ref["res"]})
         ctx.sample({"history": [s if s[0] != "load" else [s[1], s[2]] for s in sess["steps"]][:8]})
     finally:
+        set_switch(True)
         os.chdir(old_cwd)
+        shutil.rmtree(root, ignore_errors=True)
+
+
+def env_witness(ctx):
+    """the configuration hypothesis is not idle: the same load gives different results under the two values of the
+    switch, and under each value the result is the one a fresh process gives under that value"""
+    root = tempfile.mkdtemp(prefix="verif_c07e_")
+    try:
+        sink = io.StringIO()
+        with contextlib.redirect_stdout(sink), contextlib.redirect_stderr(sink):
+            d = write_fileset(ctx.rng, root, "A", 4242)
+        res = {}
+        for entry in ("NeuroMLHdf5Loader.load[badid]", "NeuroMLXMLParser+NetworkBuilder[badid]"):
+            for sw in (True, False, True):
+                got = run_action(entry, d, None, sw)
+                ref = fresh_reference(entry, d, sw)
+                ctx.seen({"env": entry, "switch": sw}, nontrivial=True)
+                ctx.count("env:" + ("on" if sw else "off") + ":" + got["res"].split(":")[0 if got["res"] == "ok" else 1])
+                if got != ref:
+                    ctx.fail("C07:history:" + entry, "%s with the validation switch %s differs from a fresh process "
+                             "with the same switch: %s" % (entry, sw, first_diff(got, ref)),
+                             {"kind": "env", "entry": entry, "switch": sw})
+                res[(entry, sw)] = got["res"]
+            if res[(entry, True)] != res[(entry, False)]:
+                ctx.count("env:result-depends-on-switch")
+        ctx.extra["env_dependence"] = {"%s|%s" % k: v[:60] for k, v in res.items()}
+    finally:
+        set_switch(True)
         shutil.rmtree(root, ignore_errors=True)
 
 
@@ -618,29 +889,44 @@ HANDLERS = ["handle_document_start", "handle_network", "handle_population", "han
             "finalise_input_source"]
 
 
-def make_recorder():
+CAMEL = {"handle_document_start": "handleDocumentStart", "handle_network": "handleNetwork",
+         "handle_population": "handlePopulation", "handle_location": "handleLocation",
+         "handle_projection": "handleProjection", "finalise_projection": "finaliseProjection",
+         "handle_connection": "handleConnection", "handle_input_list": "handleInputList",
+         "handle_single_input": "handleSingleInput", "finalise_input_source": "finaliseInputSource"}
+
+
+def make_recorder(camel=False):
+    """a handler that records the calls it gets.  camel=True: a handler written against the OLD interface (camelCase
+    method names only, not derived from DefaultNetworkHandler): both parsers alias the new names to the old methods in
+    their constructors"""
     from neuroml.hdf5.DefaultNetworkHandler import DefaultNetworkHandler
 
     class Recorder(DefaultNetworkHandler):
         def __init__(self):
             self.calls = []
 
+    class CamelRecorder(object):
+        def __init__(self):
+            self.calls = []
+    cls = CamelRecorder if camel else Recorder
+
     def mk(name):
         def f(self, *a, **kw):
             self.calls.append((name, a, kw))
         return f
     for h in HANDLERS:
-        setattr(Recorder, h, mk(h))
+        setattr(cls, CAMEL[h] if camel else h, mk(h))
     # handle_population is inspected for a `properties` argument by both parsers
     def handle_population(self, population_id, component, size=-1, component_obj=None, properties={}, notes=None):
         self.calls.append(("handle_population", (population_id, component, size),
                            {"component_obj": component_obj, "properties": dict(properties), "notes": notes}))
-    Recorder.handle_population = handle_population
-    return Recorder()
+    setattr(cls, CAMEL["handle_population"] if camel else "handle_population", handle_population)
+    return cls()
 
 
-def record(kind, path):
-    rec = make_recorder()
+def record(kind, path, camel=False):
+    rec = make_recorder(camel)
     sink = io.StringIO()
     with contextlib.redirect_stdout(sink), contextlib.redirect_stderr(sink):
         if kind == "h5":
@@ -699,7 +985,9 @@ def encode_call(name, a, kw):
         return {"k": "connection", "proj": d["proj_id"], "connId": s_(d["conn_id"]), "pre": d["prePop"], "post": d["postPop"],
                 "preCell": int(d["preCellId"]), "postCell": int(d["postCellId"]), "preSeg": s_(d["preSegId"]),
                 "postSeg": s_(d["postSegId"]), "preFract": s_(d["preFract"]), "postFract": s_(d["postFract"]),
-                "delay": s_(d["delay"]), "delayIsZero": bool(d["delay"] == 0), "weight": s_(d["weight"]),
+                "delay": s_(d["delay"]), "delayIsZero": bool(d["delay"] == 0),
+                # every connection class casts its weight: `_cast(float, weight)` (an int 1 is stored as 1.0)
+                "weight": s_(float(d["weight"])),
                 "weightIsOne": bool(d["weight"] == 1)}
     if name == "handle_input_list":
         return {"k": "inputList", "id": d["inputListId"], "pop": d["population_id"], "comp": d["component"],
@@ -771,72 +1059,72 @@ def bdump(doc, err=None):
 
 
 def reset_shared():
-    """put the class-level mutable attributes of NetworkBuilder that the translator found back to their initial
+    """put the class-level mutable attributes of NetworkBuilder that the translators found back to their initial
     (empty) value, so that every replay -- like the model -- starts from the initial shared state and a replay file
     reproduces on its own.  Nothing to do on a tree without such attributes."""
     from neuroml.hdf5.NetworkBuilder import NetworkBuilder
     pre = "neuroml/hdf5/NetworkBuilder.py::NetworkBuilder."
-    for v in _GLUE.get("side", {}).get("vars", []):
-        if v["name"].startswith(pre) and v["kind"] == "classAttr" and v["mut"] in ("mut", "unk"):
-            o = NetworkBuilder.__dict__.get(v["name"][len(pre):])
-            if isinstance(o, (dict, list, set)):
-                o.clear()
+    names = [v["name"][len(pre):] for v in _GLUE.get("side", {}).get("vars", [])
+             if v["name"].startswith(pre) and v["kind"] == "classAttr" and v["mut"] in ("mut", "unk")]
+    names += [a for a, i in _GLUE.get("handlers", {}).get("builder_attrs", {}).items()
+              if i["classLevel"] and i["mutableVal"]]
+    for nm in set(names):
+        o = NetworkBuilder.__dict__.get(nm)
+        if isinstance(o, (dict, list, set)):
+            o.clear()
 
 
-def replay_schedule(calls_a, calls_b, sched):
-    """two fresh NetworkBuilder instances stepped through the merge `sched` (list of booleans: True = A's next call)"""
+def order_from_sched(na, nb, sched):
+    """the first pass's schedule form (booleans, True = A's next call, an exhausted side falls through to the other)
+    as an explicit merge: list of builder indices (0 = A, 1 = B)"""
+    s, ia, ib, order = list(sched), 0, 0, []
+    while ia < na or ib < nb:
+        if ia < na and ib < nb:
+            who = s.pop(0) if s else True
+        else:
+            who = ia < na
+        order.append(0 if who else 1)
+        if who:
+            ia += 1
+        else:
+            ib += 1
+    return order
+
+
+def replay_n(call_lists, order, deep=True):
+    """len(call_lists) fresh NetworkBuilder instances stepped through the merge `order` (builder index per event).
+    A builder that raised ignores its further calls until its next handle_document_start (the parser driving it died)."""
     from neuroml.hdf5.NetworkBuilder import NetworkBuilder
     sink = io.StringIO()
     reset_shared()
     with contextlib.redirect_stdout(sink), contextlib.redirect_stderr(sink):
-        ba, bb = NetworkBuilder(), NetworkBuilder()
-        qa, qb = copy.deepcopy(calls_a), copy.deepcopy(calls_b)
-        err = {True: None, False: None}
-        ia = ib = 0
-        order = []
-        s = list(sched)
-        while ia < len(qa) or ib < len(qb):
-            if ia < len(qa) and ib < len(qb):
-                who = s.pop(0) if s else True
-            else:
-                who = ia < len(qa)
-            order.append(who)
-            b, q, i = (ba, qa, ia) if who else (bb, qb, ib)
-            if who:
-                ia += 1
-            else:
-                ib += 1
+        n = len(call_lists)
+        bs = [NetworkBuilder() for _ in range(n)]
+        qs = [copy.deepcopy(c) for c in call_lists]
+        err, idx = [None] * n, [0] * n
+        for who in order:
+            if idx[who] >= len(qs[who]):
+                continue
+            name, a, kw = qs[who][idx[who]]
+            idx[who] += 1
+            if name == "handle_document_start":
+                err[who] = None
             if err[who] is not None:
                 continue
-            name, a, kw = q[i]
             try:
-                getattr(b, name)(*a, **kw)
+                getattr(bs[who], name)(*a, **kw)
             except Exception as e:   # noqa
                 err[who] = type(e).__name__
-        da = bdump(getattr(ba, "nml_doc", None), err[True])
-        db = bdump(getattr(bb, "nml_doc", None), err[False])
-        deep = (deep_dump(getattr(ba, "nml_doc", None)), deep_dump(getattr(bb, "nml_doc", None)))
-    return da, db, deep, order
+        assert all(idx[i] == len(qs[i]) for i in range(n)), "schedule is not a merge of the sequences"
+        dumps = [bdump(getattr(b, "nml_doc", None), err[i]) for i, b in enumerate(bs)]
+        deeps = [deep_dump(getattr(b, "nml_doc", None)) for b in bs] if deep else [None] * n
+    return dumps, deeps
 
 
-def gen_schedule(rng, na, nb):
-    style = rng.choice(["alternate", "blocks", "random", "b-first-decl", "a-first", "b-first"])
-    if style == "alternate":
-        return [i % 2 == 0 for i in range(na + nb)]
-    if style == "blocks":
-        out, cur = [], rng.random() < 0.5
-        while len(out) < na + nb:
-            out += [cur] * rng.randint(1, 5)
-            cur = not cur
-        return out
-    if style == "random":
-        return [rng.random() < 0.5 for _ in range(na + nb)]
-    if style == "b-first-decl":     # A declares, then B runs completely, then A continues
-        k = rng.randint(1, max(1, na - 1))
-        return [True] * k + [False] * nb + [True] * na
-    if style == "a-first":
-        return [True] * na + [False] * nb
-    return [False] * nb + [True] * na
+def replay_schedule(calls_a, calls_b, sched):
+    order = order_from_sched(len(calls_a), len(calls_b), sched)
+    dumps, deeps = replay_n([calls_a, calls_b], order)
+    return dumps[0], dumps[1], (deeps[0], deeps[1]), [o == 0 for o in order]
 
 
 def declared_ids(calls):
@@ -847,52 +1135,335 @@ def declared_ids(calls):
     return ids
 
 
-def interleave_case(ctx, case):
-    """case = {"seedA","seedB","kinds":[kA,kB],"scheds":[..]} -> real vs solo, model vs real"""
+def decl_points(calls):
+    """indices just after a declaring call"""
+    return [i + 1 for i, c in enumerate(calls) if c[0] in ("handle_population", "handle_projection", "handle_input_list")]
+
+
+# the strata of the schedule generator for long (recorded) sequences; every case draws its schedules from DIFFERENT strata
+STRATA = ["a-first", "b-first", "preempt-a-after-decl", "preempt-b-after-decl", "preempt-twice", "round-robin-1",
+          "round-robin-k", "bernoulli-0.1", "bernoulli-0.5", "bernoulli-0.9", "blocks"]
+
+
+def schedule_spec(rng, stratum):
+    return [stratum, rng.random(), rng.random(), rng.randrange(10 ** 6)]
+
+
+def materialise(spec, calls_a, calls_b):
+    """spec -> explicit merge (list of 0/1)"""
+    stratum, r1, r2, seed = spec
+    na, nb = len(calls_a), len(calls_b)
+    rnd = __import__("random").Random(seed)
+
+    def pre(first, second, cf, points):
+        pts = points or [1]
+        k = pts[min(len(pts) - 1, int(r1 * len(pts)))]
+        return [first] * k + [second] * (nb if first == 0 else na) + [first] * ((na if first == 0 else nb) - k)
+    if stratum == "a-first":
+        return [0] * na + [1] * nb
+    if stratum == "b-first":
+        return [1] * nb + [0] * na
+    if stratum == "preempt-a-after-decl":
+        return pre(0, 1, calls_a, decl_points(calls_a))
+    if stratum == "preempt-b-after-decl":
+        return pre(1, 0, calls_b, decl_points(calls_b))
+    if stratum == "preempt-twice":      # A .. B .. A .. B .. : cut points right after declarations of either side
+        pa, pb = decl_points(calls_a) or [1], decl_points(calls_b) or [1]
+        ka = pa[min(len(pa) - 1, int(r1 * len(pa)))]
+        kb = pb[min(len(pb) - 1, int(r2 * len(pb)))]
+        return [0] * ka + [1] * kb + [0] * (na - ka) + [1] * (nb - kb)
+    if stratum.startswith("round-robin"):
+        q = 1 if stratum.endswith("-1") else rnd.choice([2, 3, 5])
+        out, ia, ib, cur = [], 0, 0, rnd.random() < 0.5
+        while ia < na or ib < nb:
+            if cur:
+                k = min(q, na - ia)
+                out += [0] * k
+                ia += k
+            else:
+                k = min(q, nb - ib)
+                out += [1] * k
+                ib += k
+            cur = not cur
+        return out
+    if stratum.startswith("bernoulli"):
+        p = float(stratum.split("-")[1])
+        return order_from_sched(na, nb, [rnd.random() < p for _ in range(na + nb)])
+    out, cur = [], rnd.random() < 0.5
+    while len(out) < na + nb:
+        out += [cur] * rnd.randint(1, 8)
+        cur = not cur
+    return order_from_sched(na, nb, out)
+
+
+def all_merges(na, nb):
+    """every merge of two sequences, in the order of Lean's `Glue.merges`"""
+    if na == 0:
+        yield [1] * nb
+        return
+    if nb == 0:
+        yield [0] * na
+        return
+    for m in all_merges(na - 1, nb):
+        yield [0] + m
+    for m in all_merges(na, nb - 1):
+        yield [1] + m
+
+
+# ---- hand-made short sequences: every one of the seven tables decides something, same ids on both sides
+def craft_seq(rng, feature, side):
+    """a short handler-call sequence (document start, network, population, then `feature`); `side` (0 / 1 / 2) makes
+    the content differ while the ids are the same"""
+    import neuroml as n
+    tag = "ABC"[side]
+    comp = "cell" + tag
+    calls = [("handle_document_start", ("doc" + tag, rng.choice([None, "", "notes " + tag])), {}),
+             ("handle_network", ("net" + tag, rng.choice([None, "n" + tag])),
+              {"temperature": rng.choice([None, "%d degC" % (20 + side)])})]
+    obj = n.IzhikevichCell(id=comp, v0="-70mV", thresh="30mV", a="0.02", b="0.2", c="-65", d=str(1 + side)) \
+        if rng.random() < 0.5 else None
+    calls.append(("handle_population", ("pop0", comp, rng.choice([2 + side, -1])),
+                  {"component_obj": obj, "properties": ({"color": "%d 0 0" % side} if rng.random() < 0.3 else {}),
+                   "notes": rng.choice([None, "pop of " + tag])}))
+    inst = (side + rng.randrange(2)) % 2 == 0
+    if feature == "loc" or (inst and rng.random() < 0.6):
+        calls.append(("handle_location", (0, "pop0", comp, float(side), 1.0, 2.0), {}))
+    if feature == "loc":
+        calls.append(("handle_location", (1, "pop0", comp, None if rng.random() < 0.2 else 0.5, 1.5, float(side)), {}))
+    elif feature == "proj":
+        wd = side == 1 if rng.random() < 0.7 else rng.random() < 0.5
+        calls.append(("handle_projection", ("proj0", "pop0", "pop0", "syn" + tag),
+                      {"hasWeights": wd, "hasDelays": False, "type": "projection"}))
+        calls.append(("handle_connection", ("proj0", 0, "pop0", "pop0", "syn" + tag, 0, 1),
+                      {"delay": rng.choice([0, 0, 5.0]), "weight": rng.choice([1, 1, 0.5])}))
+    elif feature == "elec":
+        so = n.GapJunction(id="gj" + tag, conductance="%dpS" % (1 + side)) if rng.random() < 0.5 else None
+        calls.append(("handle_projection", ("proj0", "pop0", "pop0", "gj" + tag),
+                      {"type": "electricalProjection", "synapse_obj": so}))
+        calls.append(("handle_connection", ("proj0", 0, "pop0", "pop0", "gj" + tag, 0, 1),
+                      {"weight": rng.choice([1, 2.0])}))
+    elif feature == "cont":
+        pre = n.SilentSynapse(id="silent" + tag) if (side == 1) == (rng.random() < 0.7) else None
+        post = n.GradedSynapse(id="gs" + tag, conductance="5pS", delta="5mV", Vth="-55mV", k="0.025per_ms", erev="0mV") \
+            if rng.random() < 0.5 else None
+        calls.append(("handle_projection", ("proj0", "pop0", "pop0", "gs" + tag),
+                      {"type": "continuousProjection", "synapse_obj": post, "pre_synapse_obj": pre}))
+        calls.append(("handle_connection", ("proj0", 0, "pop0", "pop0", None, 0, 1), {"weight": rng.choice([1, 1, 2.0])}))
+    elif feature == "fin":
+        typ = ["projection", "electricalProjection", "continuousProjection"][(side + rng.randrange(2)) % 3]
+        if rng.random() < 0.7:
+            calls.append(("handle_projection", ("proj0", "pop0", "pop0", "syn" + tag), {"type": typ}))
+        calls.append(("finalise_projection", ("proj0", "pop0", "pop0"),
+                      {"synapse": "syn" + tag, "type": rng.choice([None, None, typ])}))
+    elif feature == "inp":
+        io_ = n.PulseGenerator(id="pg" + tag, delay="0ms", duration="%dms" % (1 + side), amplitude="1nA") \
+            if rng.random() < 0.5 else None
+        calls.append(("handle_input_list", ("il0", "pop0", "pg" + tag, 1), {"input_comp_obj": io_}))
+        calls.append(("handle_single_input", ("il0", 0, 1),
+                      {"segId": rng.choice([0, 2]), "fract": rng.choice([0.5, 0.25]), "weight": rng.choice([1.0, 2.0])}))
+        if rng.random() < 0.5:
+            calls.append(("finalise_input_source", ("il0",), {}))
+    elif feature == "dangling":        # refers to ids this sequence never declares
+        calls.pop()                    # no population
+        calls.append(rng.choice([
+            ("handle_location", (0, "pop0", comp, 1.0, 1.0, 1.0), {}),
+            ("handle_connection", ("proj0", 0, "pop0", "pop0", "syn", 0, 1), {}),
+            ("handle_single_input", ("il0", 0, 0), {}),
+            ("finalise_projection", ("proj0", "pop0", "pop0"), {"synapse": "s", "type": None})]))
+    return calls
+
+
+FEATURES = ["loc", "proj", "elec", "cont", "fin", "inp", "dangling"]
+# which features of the other side put something into the same table entries
+PARTNERS = {"loc": ["loc", "proj", "inp"], "proj": ["proj", "elec", "cont", "fin"], "elec": ["elec", "proj", "fin"],
+            "cont": ["cont", "elec", "fin"], "fin": ["fin", "proj", "elec"], "inp": ["inp", "loc"],
+            "dangling": ["loc", "proj", "inp", "fin", "elec"]}
+
+
+def gen_crafted_pair(rng):
+    fa = rng.choice(FEATURES)
+    fb = rng.choice(PARTNERS[fa])
+    return {"seed": rng.randrange(10 ** 6), "features": [fa, fb]}
+
+
+def crafted_calls(case):
+    rnd = __import__("random").Random(case["seed"])
+    return [craft_seq(rnd, f, i) for i, f in enumerate(case["features"])]
+
+
+def crafted_case(ctx, case, exhaustive_cap):
+    """all merges (or, beyond the cap, a stratified sample) of two hand-made short sequences: real builders vs their
+    solo documents; the Lean model enumerates the same merges (`Glue.merges`) and reports where it differs from solo"""
+    calls = crafted_calls(case)
+    na, nb = len(calls[0]), len(calls[1])
+    solo = [replay_n([calls[0]], [0] * na)[0][0], replay_n([calls[1]], [0] * nb)[0][0]]
+    solo_deep = [replay_n([calls[0]], [0] * na)[1][0], replay_n([calls[1]], [0] * nb)[1][0]]
+    total = 1
+    for i in range(1, na + 1):
+        total = total * (nb + i) // i
+    if case.get("orders"):
+        merges, mode = [(None, o) for o in case["orders"]], "given"
+    elif total <= exhaustive_cap:
+        merges, mode = list(enumerate(all_merges(na, nb))), "exhaustive"
+    else:
+        merges, mode = [], "stratified"
+        for k, st in enumerate(STRATA * 3):
+            merges.append((None, materialise(schedule_spec(ctx.rng, st), calls[0], calls[1])))
+    ctx.count("crafted:%s" % mode)
+    ctx.count("crafted:%s+%s" % tuple(sorted(case["features"])))
+    common = bool(declared_ids(calls[0]) & declared_ids(calls[1])) or "dangling" in case["features"]
+    real_diff = {}
+    for k, order in merges:
+        dumps, deeps = replay_n(calls, order)
+        ctx.seen({"crafted": case["seed"], "f": case["features"], "order": order},
+                 nontrivial=common and sum(1 for i in range(1, len(order)) if order[i] != order[i - 1]) >= 2)
+        ctx.count("crafted:merges")
+        ok = dumps[0] == solo[0] and dumps[1] == solo[1] and deeps[0] == solo_deep[0] and deeps[1] == solo_deep[1]
+        if not ok:
+            what = first_diff(dumps[0], solo[0], "A") or first_diff(dumps[1], solo[1], "B") or \
+                first_diff(deeps[0], solo_deep[0], "A*") or first_diff(deeps[1], solo_deep[1], "B*")
+            if dumps[0] != solo[0] or dumps[1] != solo[1]:
+                real_diff[k if k is not None else len(real_diff)] = (dumps, order)
+            ctx.fail("C07:interleave:crafted",
+                     "two NetworkBuilder instances stepped in an interleaving of two short hand-made call sequences "
+                     "do not build their solo documents: %s" % what,
+                     {"kind": "crafted", "case": dict(case, orders=[order]), "diff": what,
+                      "calls": [[c[0] for c in calls[0]], [c[0] for c in calls[1]]]})
+    enc = [[encode_call(*c) for c in calls[0]], [encode_call(*c) for c in calls[1]]]
+    _PENDING_X.append((case, mode, enc, solo, merges, real_diff))
+    ctx.sample({"crafted": case["features"], "lengths": [na, nb], "merges": len(merges), "mode": mode})
+
+
+_PENDING_X = []
+
+
+def flush_crafted(ctx):
+    lines = []
+    for case, mode, enc, solo, merges, real_diff in _PENDING_X:
+        if mode == "exhaustive":
+            lines.append(json.dumps({"op": "allMerges", "a": enc[0], "b": enc[1]}))
+        else:
+            for _, order in merges:
+                lines.append(json.dumps({"op": "interleave", "a": enc[0], "b": enc[1], "sched": [o == 0 for o in order]}))
+    if not lines:
+        return
+    rc, out = fw.run_driver("C07", lines)
+    if rc != 0 or len(out) != len(lines):
+        ctx.disagree("driver", {"n": len(lines)}, "rc=%s %s" % (rc, "\n".join(out[-3:])[:300]), None)
+        del _PENDING_X[:]
+        return
+    k = 0
+    for case, mode, enc, solo, merges, real_diff in _PENDING_X:
+        if mode == "exhaustive":
+            m = json.loads(out[k])
+            k += 1
+            ctx.corr_evals += len(merges)
+            if m.get("error") or m.get("n") != len(merges) or m["soloA"] != solo[0] or m["soloB"] != solo[1]:
+                ctx.disagree("builder-model-merges", {"case": case}, {"n": len(merges), "solo": solo},
+                             {kk: m.get(kk) for kk in ("error", "n", "soloA", "soloB")})
+                continue
+            mdiff = {d[0]: (d[1], d[2]) for d in m["diffs"]}
+            if set(mdiff) != set(real_diff):
+                ctx.disagree("builder-model-merges", {"case": case, "what": "merges whose documents differ from solo"},
+                             sorted(real_diff)[:10], sorted(mdiff)[:10])
+                continue
+            for i, (ma, mb) in mdiff.items():
+                if [ma, mb] != real_diff[i][0]:
+                    ctx.disagree("builder-model-merges", {"case": dict(case, orders=[real_diff[i][1]])}, real_diff[i][0], [ma, mb])
+                    break
+        else:
+            for (_, order) in merges:
+                m = json.loads(out[k])
+                k += 1
+                ctx.corr_evals += 1
+                dumps, _ = replay_n(crafted_calls(case), order, deep=False)
+                if m.get("error") or m["a"] != dumps[0] or m["b"] != dumps[1]:
+                    ctx.disagree("builder-model", {"case": dict(case, orders=[order])}, dumps,
+                                 [m.get("a"), m.get("b"), m.get("error")])
+    del _PENDING_X[:]
+
+
+# ---- recorded sequences (what the two parsers really emit), two or three builders
+def build_case_files(case, root):
     import neuroml.loaders  # noqa: F401
     import neuroml.utils  # noqa: F401
     import neuroml.writers as W
+    rnd = __import__("random").Random
+    sink = io.StringIO()
+    paths = []
+    with contextlib.redirect_stdout(sink), contextlib.redirect_stderr(sink):
+        for i, (seed, kind) in enumerate(zip(case["seeds"], case["kinds"])):
+            tag = "ABC"[i]
+            doc = gen_net(rnd(seed), tag, rich=True, dangling=bool(case.get("dangling", {}).get(tag)),
+                          explicit=bool(case.get("explicit")) and kind == "xml")   # the HDF5 writer refuses them
+            p = os.path.join(root, "n%s.nml%s" % (tag, ".h5" if kind == "h5" else ""))
+            (W.NeuroMLHdf5Writer if kind == "h5" else W.NeuroMLWriter).write(doc, p)
+            paths.append(p)
+    _close_tables()
+    return paths
+
+
+def norm_case(case):
+    """first-pass case form {"seedA","seedB",..} -> {"seeds": [..], ..}"""
+    if "seeds" not in case:
+        case = dict(case, seeds=[case["seedA"], case["seedB"]])
+    return case
+
+
+def interleave_case(ctx, case):
+    """case = {"seeds": [..], "kinds": [..], "scheds": [explicit] | "specs": [stratum specs]} -> real vs solo, model vs real"""
+    case = norm_case(case)
+    n = len(case["kinds"])
     root = tempfile.mkdtemp(prefix="verif_c07i_")
     try:
-        rnd = __import__("random").Random
-        sink = io.StringIO()
-        paths = []
-        with contextlib.redirect_stdout(sink), contextlib.redirect_stderr(sink):
-            for tag, seed, kind in (("A", case["seedA"], case["kinds"][0]), ("B", case["seedB"], case["kinds"][1])):
-                doc = gen_net(rnd(seed), tag, rich=True, dangling=bool(case.get("dangling", {}).get(tag)))
-                p = os.path.join(root, "n%s.nml%s" % (tag, ".h5" if kind == "h5" else ""))
-                (W.NeuroMLHdf5Writer if kind == "h5" else W.NeuroMLWriter).write(doc, p)
-                paths.append(p)
-        _close_tables()
-        calls = [record(case["kinds"][0], paths[0]), record(case["kinds"][1], paths[1])]
-        # solo documents
-        sa, _, deep_a, _ = replay_schedule(calls[0], [], [])
-        _, sb, deep_b, _ = replay_schedule([], calls[1], [])
-        solo_deep = (deep_a[0], deep_b[1])
-        common = bool(declared_ids(calls[0]) & declared_ids(calls[1]))
+        paths = build_case_files(case, root)
+        calls = [record(k, p, camel=bool(case.get("camel"))) for k, p in zip(case["kinds"], paths)]
+        solos = [replay_n([c], [0] * len(c)) for c in calls]
+        solo, solo_deep = [s[0][0] for s in solos], [s[1][0] for s in solos]
+        common = bool(set.intersection(*[declared_ids(c) for c in calls]))
+        enc = [[encode_call(*c) for c in cs] for cs in calls]
+        orders = []
+        for sched in case.get("scheds", []):
+            orders.append(("given", order_from_sched(len(calls[0]), len(calls[1]), sched) if n == 2 and
+                           (not sched or isinstance(sched[0], bool)) else list(sched)))
+        for spec in case.get("specs", []):
+            if n == 2:
+                orders.append((spec[0], materialise(spec, calls[0], calls[1])))
+            else:      # three builders: merge A with B by the spec, then the result with C by the next stratum
+                ab = materialise(spec, calls[0], calls[1])
+                rnd = __import__("random").Random(spec[3])
+                spec2 = schedule_spec(rnd, STRATA[(STRATA.index(spec[0]) + 3) % len(STRATA)])
+                abc = materialise(spec2, [("x",)] * len(ab), calls[2])
+                it = iter(ab)
+                orders.append((spec[0] + "/" + spec2[0], [next(it) if o == 0 else 2 for o in abc]))
         lines, reals = [], []
-        enc = [[encode_call(*c) for c in calls[0]], [encode_call(*c) for c in calls[1]]]
-        for sched in case["scheds"]:
-            da, db, deep, order = replay_schedule(calls[0], calls[1], sched)
+        for stratum, order in orders:
+            dumps, deeps = replay_n(calls, order)
             alternates = sum(1 for i in range(1, len(order)) if order[i] != order[i - 1]) >= 2
-            canon = {"A": case["seedA"], "B": case["seedB"], "kinds": case["kinds"], "order": order,
-                     "dangling": case.get("dangling")}
-            ctx.seen(canon, nontrivial=common and alternates)
-            ctx.count("interleave:%s+%s" % tuple(case["kinds"]))
+            ctx.seen({"seeds": case["seeds"], "kinds": case["kinds"], "order": order, "dangling": case.get("dangling")},
+                     nontrivial=common and alternates)
+            ctx.count("interleave:" + "+".join(case["kinds"]))
+            ctx.count("stratum:" + stratum)
             if common:
                 ctx.count("interleave:common-ids")
-            ok = (da == sa and db == sb and deep[0] == solo_deep[0] and deep[1] == solo_deep[1])
-            if not ok:
-                what = first_diff(da, sa, "A") or first_diff(db, sb, "B") or first_diff(deep[0], solo_deep[0], "A*") \
-                    or first_diff(deep[1], solo_deep[1], "B*")
-                ctx.fail("C07:interleave:%s+%s" % tuple(case["kinds"]),
-                         "two NetworkBuilder instances stepped in an interleaving do not build their solo documents: %s" % what,
-                         {"kind": "interleave", "case": dict(case, scheds=[sched]), "diff": what})
-            lines.append(json.dumps({"op": "interleave", "a": enc[0], "b": enc[1], "sched": [bool(x) for x in order]}))
-            reals.append((da, db, order))
-        # correspondence with the Lean model is evaluated in one batch (flush_model)
-        _PENDING.append((case, lines, reals, sa, sb))
-        ctx.sample({"interleave": case["kinds"], "calls": [len(calls[0]), len(calls[1])], "common_ids": common})
+            if len(set(case["seeds"])) < len(case["seeds"]):
+                ctx.count("interleave:same-document")
+            bad = [i for i in range(n) if dumps[i] != solo[i] or deeps[i] != solo_deep[i]]
+            if bad:
+                i = bad[0]
+                what = first_diff(dumps[i], solo[i], "ABC"[i]) or first_diff(deeps[i], solo_deep[i], "ABC"[i] + "*")
+                ctx.fail("C07:interleave:" + "+".join(case["kinds"]),
+                         "%d NetworkBuilder instances stepped in an interleaving do not build their solo documents: %s"
+                         % (n, what),
+                         {"kind": "interleave", "case": {k: v for k, v in dict(case, scheds=[order]).items() if k != "specs"},
+                          "diff": what})
+            if n == 2:
+                lines.append(json.dumps({"op": "interleave", "a": enc[0], "b": enc[1], "sched": [o == 0 for o in order]}))
+            else:
+                lines.append(json.dumps({"op": "interleaveN", "seqs": enc, "order": order}))
+            reals.append((dumps, order))
+        _PENDING.append((case, lines, reals, solo))
+        ctx.sample({"interleave": case["kinds"], "calls": [len(c) for c in calls], "common_ids": common})
     finally:
         _close_tables()
         shutil.rmtree(root, ignore_errors=True)
@@ -902,8 +1473,8 @@ _PENDING = []
 
 
 def flush_model(ctx):
-    """the pending interleavings through the Lean model (sharing configuration read off the extracted table)"""
-    lines = [l for (_, ls, _, _, _) in _PENDING for l in ls]
+    """the pending interleavings through the Lean model (sharing configuration read off the extracted tables)"""
+    lines = [l for (_, ls, _, _) in _PENDING for l in ls]
     if not lines:
         return
     rc, out = fw.run_driver("C07", lines)
@@ -912,30 +1483,522 @@ def flush_model(ctx):
         del _PENDING[:]
         return
     k = 0
-    for case, ls, reals, sa, sb in _PENDING:
-        for (da, db, order), l in zip(reals, out[k:k + len(ls)]):
+    for case, ls, reals, solo in _PENDING:
+        for (dumps, order), l in zip(reals, out[k:k + len(ls)]):
             m = json.loads(l)
             ctx.corr_evals += 1
             if m.get("error"):
+                if "not modelled" in m["error"]:
+                    ctx.count("interleave:model-n/a(shared tables, >2 builders)")
+                    continue
                 ctx.disagree("builder-model", {"case": case, "order": order}, "real ok", m)
                 continue
-            if m["a"] != da or m["b"] != db or m["soloA"] != sa or m["soloB"] != sb:
-                d = first_diff(m["a"], da, "a") or first_diff(m["b"], db, "b") or first_diff(m["soloA"], sa, "soloA") \
-                    or first_diff(m["soloB"], sb, "soloB")
-                ctx.disagree("builder-model", {"case": dict(case, scheds=[[bool(x) for x in order]]),
-                                               "diff(model vs real)": d}, {"a": da, "b": db}, {"a": m["a"], "b": m["b"]})
+            got = [m["a"], m["b"]] if "a" in m else m["states"]
+            msolo = [m["soloA"], m["soloB"]] if "a" in m else m["solos"]
+            if got != dumps or msolo != solo:
+                d = None
+                for i in range(len(dumps)):
+                    d = d or first_diff(got[i], dumps[i], "ABC"[i]) or first_diff(msolo[i], solo[i], "solo" + "ABC"[i])
+                ctx.disagree("builder-model", {"case": {k_: v for k_, v in dict(case, scheds=[order]).items() if k_ != "specs"},
+                                               "diff(model vs real)": d}, dumps, got)
         k += len(ls)
     del _PENDING[:]
 
 
-def gen_interleave_case(rng, nsched):
-    kinds = rng.choice([["h5", "xml"], ["h5", "xml"], ["xml", "h5"], ["h5", "h5"], ["xml", "xml"]])
-    case = {"seedA": rng.randrange(10 ** 6), "seedB": rng.randrange(10 ** 6), "kinds": kinds, "scheds": []}
+def gen_interleave_case(rng, nsched, three=False):
+    if three:
+        kinds = rng.choice([["h5", "xml", "h5"], ["xml", "h5", "xml"], ["h5", "h5", "xml"], ["xml", "xml", "h5"]])
+    else:
+        kinds = rng.choice([["h5", "xml"], ["h5", "xml"], ["xml", "h5"], ["h5", "h5"], ["xml", "xml"]])
+    seeds = [rng.randrange(10 ** 6) for _ in kinds]
+    if rng.random() < 0.25:          # the SAME document through different parsers: every id occurs on both sides
+        seeds = [seeds[0]] * len(kinds)
+    case = {"seeds": seeds, "kinds": kinds, "specs": []}
     if rng.random() < 0.15:
-        case["dangling"] = {rng.choice("AB"): True}
-    for _ in range(nsched):
-        case["scheds"].append(gen_schedule(rng, 40, 40))
+        case["dangling"] = {rng.choice("ABC"[:len(kinds)]): True}
+    if rng.random() < 0.3:
+        case["explicit"] = True
+    if rng.random() < 0.2:
+        case["camel"] = True
+    start = rng.randrange(len(STRATA))
+    for i in range(nsched):          # consecutive strata: a case never draws the same stratum twice
+        case["specs"].append(schedule_spec(rng, STRATA[(start + i) % len(STRATA)]))
     return case
+
+
+# ---- one builder, several documents; one parser object, several files (model: brunR / ParserReuse)
+def builder_reuse_case(ctx, case):
+    """case = {"seeds": [..], "kinds": [..], "dangling": {...}}: the recorded sequences of the files are fed ONE AFTER
+    THE OTHER to one real NetworkBuilder; the document after each must be the one a new builder builds (oracle) and the
+    one the model predicts for the tree's variant (correspondence)"""
+    case = norm_case(case)
+    root = tempfile.mkdtemp(prefix="verif_c07r_")
+    try:
+        if case.get("crafted"):
+            rnd = __import__("random").Random(case["seeds"][0])
+            calls = [craft_seq(rnd, f, i % 3) for i, f in enumerate(case["crafted"])]
+        else:
+            paths = build_case_files(case, root)
+            calls = [record(k, p) for k, p in zip(case["kinds"], paths)]
+        from neuroml.hdf5.NetworkBuilder import NetworkBuilder
+        sink = io.StringIO()
+        views = []
+        reset_shared()
+        with contextlib.redirect_stdout(sink), contextlib.redirect_stderr(sink):
+            b = NetworkBuilder()
+            for cs in calls:
+                err = None
+                for name, a, kw in copy.deepcopy(cs):
+                    if err is not None:
+                        break
+                    try:
+                        getattr(b, name)(*a, **kw)
+                    except Exception as e:   # noqa
+                        err = type(e).__name__
+                views.append(bdump(getattr(b, "nml_doc", None), err))
+        fresh = [replay_n([cs], [0] * len(cs), deep=False)[0][0] for cs in calls]
+        for i in range(len(calls)):
+            ctx.seen({"builder-reuse": case, "doc": i}, nontrivial=i > 0)
+            ctx.count("builder-reuse:doc%d:%s" % (min(i, 2), "same" if views[i] == fresh[i] else "differs"))
+            if views[i] != fresh[i]:
+                ctx.fail("C07:reuse:NetworkBuilder",
+                         "document %d built on a NetworkBuilder that has built other documents before differs from the "
+                         "document a new builder builds from the same calls: %s" % (i, first_diff(views[i], fresh[i], "doc")),
+                         {"kind": "builder-reuse", "case": case, "doc": i})
+        _PENDING_R.append(("reuse", case, json.dumps({"op": "reuse", "docs": [[encode_call(*c) for c in cs] for cs in calls]}),
+                           (views, fresh)))
+    finally:
+        _close_tables()
+        shutil.rmtree(root, ignore_errors=True)
+
+
+def h5_description(doc, embedded, path):
+    """what Model/ParserReuse.lean knows about an HDF5 file"""
+    comps = []
+    if embedded:
+        for m in doc.member_data_items_:
+            nm = m.get_name()
+            if nm in STANDALONE_SKIP or not m.get_container():
+                continue
+            for o in getattr(doc, nm) or []:
+                if getattr(o, "id", None) is not None:
+                    comps.append([o.id, "%s:%s" % (type(o).__name__, o.id)])
+    net = doc.networks[0] if doc.networks else None
+    return {"id": doc.id, "embedded": comps if embedded else None, "network": net.id if net else None,
+            "pops": [[p.id, p.component] for p in (net.populations if net else [])]}
+
+
+def parser_reuse_case(ctx, case):
+    """case = {"files": [[seed, embedded?, network?], ..]}: ONE NeuroMLHdf5Parser object parses the files one after the
+    other, (a) driving a recorder (what component object every population gets), (b) optimized (the document returned)"""
+    import neuroml as n
+    import neuroml.writers as W
+    from neuroml.hdf5.NeuroMLHdf5Parser import NeuroMLHdf5Parser
+    rnd = __import__("random").Random
+    root = tempfile.mkdtemp(prefix="verif_c07p_")
+    sink = io.StringIO()
+    try:
+        descs, paths = [], []
+        with contextlib.redirect_stdout(sink), contextlib.redirect_stderr(sink):
+            for i, (seed, emb, hasnet) in enumerate(case["files"]):
+                doc = gen_net(rnd(seed), "F%d" % i, rich=False)
+                if not hasnet:
+                    del doc.networks[:]
+                p = os.path.join(root, "f%d.nml.h5" % i)
+                W.NeuroMLHdf5Writer.write(doc, p, embed_xml=bool(emb))
+                descs.append(h5_description(doc, emb, p))
+                paths.append(p)
+        _close_tables()
+
+        def run(parser_factory, reuse):
+            out, pobj = [], None
+            for p in paths:
+                if pobj is None or not reuse:
+                    pobj = parser_factory()
+                with contextlib.redirect_stdout(sink), contextlib.redirect_stderr(sink):
+                    try:
+                        rec = pobj.netHandler
+                        if rec is not None:
+                            del rec.calls[:]
+                        pobj.parse(p)
+                        if rec is not None:
+                            out.append([[c[1][0], tok(c[2].get("component_obj"))] for c in rec.calls
+                                        if c[0] == "handle_population"])
+                        else:
+                            d = pobj.get_nml_doc()
+                            cs = []
+                            for m in d.member_data_items_:
+                                nm = m.get_name()
+                                if nm in STANDALONE_SKIP or not m.get_container():
+                                    continue
+                                cs += ["%s:%s" % (type(o).__name__, o.id) for o in getattr(d, nm) or []]
+                            out.append({"id": d.id, "comps": sorted(cs), "nets": [x.id for x in d.networks]})
+                    except Exception as e:   # noqa
+                        out.append({"err": type(e).__name__})
+                    finally:
+                        _close_tables()
+            return out
+        rec_reused = run(lambda: NeuroMLHdf5Parser(make_recorder()), True)
+        rec_fresh = run(lambda: NeuroMLHdf5Parser(make_recorder()), False)
+        opt_reused = run(lambda: NeuroMLHdf5Parser(None, optimized=True), True)
+        opt_fresh = run(lambda: NeuroMLHdf5Parser(None, optimized=True), False)
+        for i in range(len(paths)):
+            ctx.seen({"parser-reuse": case, "file": i}, nontrivial=i > 0)
+            same = rec_reused[i] == rec_fresh[i] and opt_reused[i] == opt_fresh[i]
+            ctx.count("parser-reuse:%s:%s" % ("embedded" if case["files"][i][1] else "noembed",
+                                              "same" if same else "differs"))
+            if not same:
+                what = first_diff(rec_reused[i], rec_fresh[i], "component_obj") or first_diff(opt_reused[i], opt_fresh[i], "optimized")
+                ctx.fail("C07:reuse:NeuroMLHdf5Parser",
+                         "file %d parsed by a NeuroMLHdf5Parser object that has parsed other files before gives another "
+                         "result than a new parser: %s" % (i, what), {"kind": "parser-reuse", "case": case, "file": i})
+        _PENDING_R.append(("parserReuse", case, json.dumps({"op": "parserReuse", "files": descs}),
+                           (rec_reused, rec_fresh, opt_reused, opt_fresh)))
+    finally:
+        _close_tables()
+        shutil.rmtree(root, ignore_errors=True)
+
+
+_PENDING_R = []
+
+
+def flush_reuse(ctx):
+    if not _PENDING_R:
+        return
+    rc, out = fw.run_driver("C07", [x[2] for x in _PENDING_R])
+    if rc != 0 or len(out) != len(_PENDING_R):
+        ctx.disagree("driver", {"n": len(_PENDING_R)}, "rc=%s %s" % (rc, "\n".join(out[-3:])[:300]), None)
+        del _PENDING_R[:]
+        return
+    for (kind, case, _, real), l in zip(_PENDING_R, out):
+        m = json.loads(l)
+        ctx.corr_evals += 1
+        if m.get("error"):
+            ctx.disagree(kind + "-model", {"case": case}, "real ok", m)
+        elif kind == "reuse":
+            views, fresh = real
+            if m["views"] != views or m["fresh"] != fresh:
+                ctx.disagree("builder-reuse-model", {"case": case, "reset": m.get("reset"),
+                                                     "diff(model vs real)": first_diff(m["views"], views, "views") or
+                                                     first_diff(m["fresh"], fresh, "fresh")}, views, m["views"])
+        else:
+            rr, rf, orr, of = real
+
+            def conv(rows):
+                return [{"compObjs": [[a, b] for a, b in r["compObjs"]], "opt": r["opt"]} for r in rows]
+            want_reused = [{"compObjs": a, "opt": b} for a, b in zip(rr, orr)]
+            want_fresh = [{"compObjs": a, "opt": b} for a, b in zip(rf, of)]
+            if conv(m["reused"]) != want_reused or conv(m["fresh"]) != want_fresh:
+                ctx.disagree("parser-reuse-model", {"case": case, "reset": m.get("reset"),
+                                                    "diff(model vs real)": first_diff(conv(m["reused"]), want_reused, "reused")
+                                                    or first_diff(conv(m["fresh"]), want_fresh, "fresh")},
+                             want_reused, m["reused"])
+    del _PENDING_R[:]
+
+
+def gen_builder_reuse_case(rng):
+    if rng.random() < 0.4:
+        k = rng.randint(2, 3)
+        return {"seeds": [rng.randrange(10 ** 6)], "kinds": [], "crafted": [rng.choice(FEATURES) for _ in range(k)]}
+    k = rng.randint(2, 3)
+    case = {"seeds": [rng.randrange(10 ** 6) for _ in range(k)], "kinds": [rng.choice(["h5", "xml"]) for _ in range(k)]}
+    if rng.random() < 0.5:
+        case["dangling"] = {rng.choice("ABC"[1:k]): True}
+    return case
+
+
+def gen_parser_reuse_case(rng):
+    return {"files": [[rng.randrange(10 ** 6), rng.random() < 0.55, rng.random() < 0.8] for _ in range(rng.randint(2, 4))]}
+
+
+# ------------------------------------------------------------------------------------------------ overlapping loads
+# "Two loads that are active at the same time produce the documents they would have produced alone": (a) an HDF5 file
+# whose embedded XML includes another HDF5 file (the inner load runs while the outer file is open), (b) a load started
+# from inside a handler call of another load, (c) two or three parser-driven builds stepped in an interleaving at
+# handler-call granularity -- the REAL parsers, each in its own thread, exactly one of them running at any time
+# (a scheduler hands the turn over at every handler call), so the schedule is deterministic.
+# Nothing in here may call tables.file._open_files.close_all(): the harness itself would end the other load.
+OUTERS = {"h5": "net.nml.h5", "h5-simple": "simple.nml.h5", "h5-noembed": "noembed.nml.h5", "h5-inc": "h5inc.nml.h5",
+          "xml": "net.nml", "xml-expl": "expl.nml", "xml-inc": "netinc.nml"}
+INNER_POOL = ["NeuroMLHdf5Loader.load", "NeuroMLHdf5Loader.load[optimized]", "read_neuroml2_file[h5]",
+              "read_neuroml2_file[includes]", "NeuroMLLoader.load", "ArrayMorphLoader.load",
+              "NeuroMLXMLParser+NetworkBuilder", "NeuroMLHdf5Parser+NetworkBuilder", "NeuroMLHdf5Loader.load[bad]",
+              "read_neuroml2_string[includes]", "NeuroMLHdf5Loader.load[h5inc]", "NeuroMLHdf5Loader.load[noembed]",
+              "read_neuroml2_file[h5,optimized]"]
+
+
+def outer_build(kind, d, builder):
+    """one parser-driven build with the given handler, completed the way NeuroMLHdf5Loader does"""
+    from neuroml.utils import add_all_to_document
+    path = os.path.join(d, OUTERS[kind])
+    if kind.startswith("h5"):
+        from neuroml.hdf5.NeuroMLHdf5Parser import NeuroMLHdf5Parser
+        p = NeuroMLHdf5Parser(builder)
+        p.parse(path)
+        doc = builder.get_nml_doc()
+        if p.nml_doc_extra_elements:
+            add_all_to_document(p.nml_doc_extra_elements, doc)
+        return doc
+    from neuroml.hdf5.NeuroMLXMLParser import NeuroMLXMLParser
+    NeuroMLXMLParser(builder).parse(path)
+    return builder.get_nml_doc()
+
+
+def result_of(f):
+    """canonical result of a load: {"res": "ok", "dump": ..} | {"res": "exc:.."} -- WITHOUT touching PyTables' registry"""
+    try:
+        return {"res": "ok", "dump": deep_dump(f())}
+    except SystemExit:
+        return {"res": "exc:SystemExit"}
+    except BaseException as e:   # noqa
+        return {"res": "exc:" + exc_tag(e)}
+
+
+def make_wrapping_builder(hook):
+    """a NetworkBuilder every handler call of which first calls hook(call_index)"""
+    from neuroml.hdf5.NetworkBuilder import NetworkBuilder
+
+    class Wrapped(NetworkBuilder):
+        def __init__(self):
+            NetworkBuilder.__init__(self)
+            self._n = 0
+
+        # the parsers inspect handle_population for a `properties` argument
+        def handle_population(self, population_id, component, size, component_obj=None, properties={}, notes=None):
+            hook(self._bump())
+            return NetworkBuilder.handle_population(self, population_id, component, size, component_obj=component_obj,
+                                                    properties=properties, notes=notes)
+
+        def _bump(self):
+            self._n += 1
+            return self._n - 1
+
+    def mk(name):
+        base = getattr(NetworkBuilder, name)
+
+        def f(self, *a, **kw):
+            hook(self._bump())
+            return base(self, *a, **kw)
+        return f
+    for h in HANDLERS:
+        if h != "handle_population":
+            setattr(Wrapped, h, mk(h))
+    return Wrapped()
+
+
+def count_calls(kind, d):
+    n = [0]
+    b = make_wrapping_builder(lambda i: n.__setitem__(0, n[0] + 1))
+    res = result_of(lambda: outer_build(kind, d, b))
+    return n[0], res
+
+
+def nested_load(spec, dirs, log):
+    """spec = entry string | {"outer": kind, "set": tag, "at": fraction, "inner": spec}: run it, appending
+    (label, result) of every load to `log` in completion order"""
+    if isinstance(spec, str):
+        tag, entry = spec.split("|")
+        r = result_of(lambda: perform(entry, dirs[tag]))
+        log.append((spec, r))
+        return r
+    d = dirs[spec["set"]]
+    total = spec["_n"]
+    at = min(total - 1, int(spec["at"] * total)) if total else 0
+
+    def hook(i):
+        if i == at:
+            nested_load(spec["inner"], dirs, log)
+    b = make_wrapping_builder(hook)
+    r = result_of(lambda: outer_build(spec["outer"], d, b))
+    log.append(("%s|outer:%s@%d" % (spec["set"], spec["outer"], at), r))
+    return r
+
+
+def solo_of(spec, dirs, memo):
+    """the results the loads of `spec` give alone, one after the other"""
+    if isinstance(spec, str):
+        if spec not in memo:
+            tag, entry = spec.split("|")
+            memo[spec] = result_of(lambda: perform(entry, dirs[tag]))
+        return
+    key = "%s|outer:%s" % (spec["set"], spec["outer"])
+    if key not in memo:
+        n, r = count_calls(spec["outer"], dirs[spec["set"]])
+        memo[key] = r
+        memo[key + "#n"] = n
+    spec["_n"] = memo[key + "#n"]
+    solo_of(spec["inner"], dirs, memo)
+
+
+def strip_(spec):
+    return spec if isinstance(spec, str) else {k: (strip_(v) if k == "inner" else v) for k, v in spec.items() if k != "_n"}
+
+
+def overlap_case(ctx, case):
+    """case = {"seeds": {"A":..,"B":..}, "mode": "callback", "spec": nested spec}
+            | {"seeds": .., "mode": "stepped", "builds": [[tag, kind], ..], "spec3": stratum spec | "order": [..]}
+            | {"seeds": .., "mode": "h5-in-h5"}"""
+    root = tempfile.mkdtemp(prefix="verif_c07o_")
+    old_cwd = os.getcwd()
+    sink = io.StringIO()
+    try:
+        dirs = {}
+        with contextlib.redirect_stdout(sink), contextlib.redirect_stderr(sink):
+            for tag in "AB":
+                dirs[tag] = write_fileset(ctx.rng, root, tag, case["seeds"][tag])
+        os.chdir(root)
+        with contextlib.redirect_stdout(sink), contextlib.redirect_stderr(sink):
+            if case["mode"] == "callback":
+                memo, log = {}, []
+                spec = json.loads(json.dumps(case["spec"]))
+                solo_of(spec, dirs, memo)
+                nested_load(spec, dirs, log)
+                depth = 0
+                s_ = spec
+                while not isinstance(s_, str):
+                    depth, s_ = depth + 1, s_["inner"]
+                ctx.count("overlap:callback:depth%d" % depth)
+                for label, r in log:
+                    key = label.split("@")[0]
+                    ctx.seen({"overlap": strip_(case["spec"]), "seeds": case["seeds"], "load": label}, nontrivial=True)
+                    ctx.count("overlap:" + ("outer" if "|outer:" in label else "inner") + ":" + r["res"].split(":")[0])
+                    if r != memo[key]:
+                        ctx.fail("C07:overlap:callback",
+                                 "a load that is active while another load runs (started from inside a handler call) "
+                                 "does not give the result it gives alone: %s: %s" % (label, first_diff(r, memo[key])),
+                                 {"kind": "overlap", "case": dict(case, spec=strip_(case["spec"])), "load": label,
+                                  "alone": memo[key]["res"], "overlapping": r["res"]})
+            elif case["mode"] == "h5-in-h5":
+                # expected = the outer file without its include, merged (the loader's own merge) with the inner file alone
+                from neuroml.utils import add_all_to_document
+                import neuroml.loaders as L
+                for tag in "AB":
+                    d = dirs[tag]
+                    for entry, f in (("NeuroMLHdf5Loader.load", lambda p: L.NeuroMLHdf5Loader.load(p)),
+                                     ("read_neuroml2_file", lambda p: L.read_neuroml2_file(p, include_includes=True))):
+                        def expected():
+                            a = f(os.path.join(d, "h5inc_noinc.nml.h5"))
+                            add_all_to_document(f(os.path.join(d, "simple.nml.h5")), a)
+                            return a
+                        want = result_of(expected)
+                        got = result_of(lambda: f(os.path.join(d, "h5inc.nml.h5")))
+                        ctx.seen({"h5-in-h5": case["seeds"][tag], "entry": entry}, nontrivial=True)
+                        ctx.count("overlap:h5-in-h5:" + got["res"].split(":")[0])
+                        if got != want:
+                            ctx.fail("C07:overlap:h5-in-h5",
+                                     "%s of an HDF5 file whose embedded XML includes another HDF5 file (the inner load "
+                                     "runs while the outer one is active) is not the outer file merged with the inner "
+                                     "file loaded alone: %s" % (entry, first_diff(got, want)),
+                                     {"kind": "overlap", "case": case, "entry": entry, "got": got["res"], "want": want["res"]})
+            else:
+                stepped_case(ctx, case, dirs)
+    finally:
+        os.chdir(old_cwd)
+        _close_tables()
+        shutil.rmtree(root, ignore_errors=True)
+
+
+class Stepper:
+    """hands the turn to exactly one of n worker threads at a time; a worker gives it back at its next handler call"""
+
+    def __init__(self, n):
+        import threading
+        self.go = [threading.Semaphore(0) for _ in range(n)]
+        self.back = threading.Semaphore(0)
+        self.done = [False] * n
+        self.stuck = False
+
+    def grant(self, i):
+        if self.done[i]:
+            return
+        self.go[i].release()
+        if not self.back.acquire(timeout=120):
+            self.stuck = True
+
+    def pause(self, i):          # called by worker i at every handler call
+        self.back.release()
+        if not self.go[i].acquire(timeout=300):
+            raise RuntimeError("stepper: worker %d was never resumed" % i)
+
+
+def stepped_case(ctx, case, dirs):
+    """the REAL parsers of 2-3 builds, each in its own thread, stepped in the given merge of their handler calls
+    (one grant = run up to and including the next handler call; the first grant runs the part of parse() before the
+    first call: opening the file, reading the embedded XML and its includes)"""
+    import threading
+    builds = case["builds"]
+    n = len(builds)
+    solo, ncalls = [], []
+    for tag, kind in builds:
+        k, r = count_calls(kind, dirs[tag])
+        solo.append(r)
+        ncalls.append(k)
+    if case.get("order"):
+        order = list(case["order"])
+    else:
+        seqs = [[("x",)] * (k + 1) for k in ncalls]
+        spec = case["spec3"]
+        order = materialise(spec, seqs[0], seqs[1])
+        if n == 3:
+            rnd = __import__("random").Random(spec[3])
+            spec2 = schedule_spec(rnd, STRATA[(STRATA.index(spec[0]) + 5) % len(STRATA)])
+            abc = materialise(spec2, [("x",)] * len(order), seqs[2])
+            it = iter(order)
+            order = [next(it) if o == 0 else 2 for o in abc]
+    st = Stepper(n)
+    results = [None] * n
+
+    def work(i):
+        tag, kind = builds[i]
+        try:
+            st.go[i].acquire()
+            b = make_wrapping_builder(lambda j: st.pause(i))
+            results[i] = result_of(lambda: outer_build(kind, dirs[tag], b))
+        finally:
+            st.done[i] = True
+            st.back.release()
+    threads = [threading.Thread(target=work, args=(i,), daemon=True) for i in range(n)]
+    for t in threads:
+        t.start()
+    for i in order:
+        st.grant(i)
+    for i in range(n):           # whatever is left (a build that makes more calls than it did alone)
+        while not st.done[i] and not st.stuck:
+            st.grant(i)
+    for t in threads:
+        t.join(timeout=30)
+    alternates = sum(1 for i in range(1, len(order)) if order[i] != order[i - 1]) >= 2
+    ctx.seen({"stepped": builds, "seeds": case["seeds"], "order": order}, nontrivial=alternates)
+    ctx.count("overlap:stepped:%d-builds" % n)
+    ctx.count("overlap:stepped:" + "+".join(k for _, k in builds))
+    if st.stuck:
+        ctx.disagree("stepper", {"case": case}, "a worker did not give the turn back", None)
+        return
+    for i in range(n):
+        if results[i] != solo[i]:
+            ctx.fail("C07:overlap:stepped",
+                     "%d parser-driven builds stepped in an interleaving of their handler calls (real parsers, all files "
+                     "open at the same time): build %d (%s) does not give the document it gives alone: %s"
+                     % (n, i, builds[i][1], first_diff(results[i], solo[i])),
+                     {"kind": "overlap", "case": dict({k: v for k, v in case.items() if k != "spec3"}, order=order),
+                      "build": i, "alone": solo[i]["res"], "stepped": (results[i] or {}).get("res")})
+
+
+def gen_overlap_case(rng, i):
+    seeds = {"A": rng.randrange(10 ** 6), "B": rng.randrange(10 ** 6)}
+    if i % 3 == 0:
+        inner = "%s|%s" % (rng.choice("AB"), rng.choice(INNER_POOL))
+        if rng.random() < 0.4:        # depth 2: the inner load is itself a build with a load inside
+            inner = {"outer": rng.choice(sorted(OUTERS)), "set": rng.choice("AB"), "at": rng.random(), "inner": inner}
+        spec = {"outer": rng.choice(sorted(OUTERS)), "set": rng.choice("AB"),
+                "at": rng.choice([0.0, 0.999, rng.random(), rng.random()]), "inner": inner}
+        return {"seeds": seeds, "mode": "callback", "spec": spec}
+    nb = 3 if i % 6 == 5 else 2
+    builds = [[rng.choice("AB"), rng.choice(sorted(OUTERS))] for _ in range(nb)]
+    if rng.random() < 0.3:
+        builds[1] = list(builds[0])            # the SAME file twice, at the same time
+    return {"seeds": seeds, "mode": "stepped", "builds": builds,
+            "spec3": schedule_spec(rng, STRATA[rng.randrange(len(STRATA))])}
 
 
 # ------------------------------------------------------------------------------------------------ corpus / run / replay
@@ -961,6 +2024,59 @@ CORPUS = [
         ["load", "A", "NeuroMLXMLParser+NetworkBuilder[includes]"], ["load", "A", "NeuroMLXMLParser+NetworkBuilder[includes]"],
         ["load", "B", "NeuroMLXMLParser+NetworkBuilder[includes]"], ["load", "A", "read_neuroml2_file[netinc]"],
         ["load", "A", "NeuroMLXMLParser+NetworkBuilder[includes]"]]}},
+    # ---- second pass
+    # one builder, two documents: the second refers to a population only the first declares (open finding
+    # C07:reuse:NetworkBuilder); the same files through a reused XML parser with a NEW builder per file are fine
+    {"kind": "history", "session": {"seeds": {"A": 2, "B": 5}, "steps": [
+        ["load", "A", "reuse:xml-same:net"], ["load", "A", "reuse:xml-same:bad"], ["load", "B", "reuse:xml-same:net"],
+        ["load", "A", "reuse:xml-fresh:net"], ["load", "A", "reuse:xml-fresh:bad"], ["load", "B", "reuse:xml-fresh:expl"],
+        ["load", "A", "reuse:builder-h5:net"], ["load", "A", "reuse:builder-h5:bad"]]}},
+    # one HDF5 parser object, several files: embedded XML / network of an earlier file leak into a file that has none
+    # (open findings C07:reuse:NeuroMLHdf5Parser, C07:reuse:NeuroMLHdf5Parser+NetworkBuilder)
+    {"kind": "history", "session": {"seeds": {"A": 2, "B": 5}, "steps": [
+        ["load", "A", "reuse:h5-fresh:simple"], ["load", "A", "reuse:h5-fresh:noembed"],
+        ["load", "B", "reuse:h5-opt:simple"], ["load", "A", "reuse:h5-opt:noembed"], ["load", "A", "reuse:h5-opt:nonet"],
+        ["load", "A", "reuse:h5-same:simple"], ["load", "B", "reuse:h5-same:noembed"], ["load", "A", "reuse:h5-same:bad"]]}},
+    {"kind": "builder-reuse", "case": {"seeds": [3], "kinds": [], "crafted": ["loc", "dangling", "proj", "dangling"]}},
+    {"kind": "builder-reuse", "case": {"seeds": [17], "kinds": [], "crafted": ["inp", "dangling", "fin"]}},
+    {"kind": "parser-reuse", "case": {"files": [[3, True, True], [4, False, True], [5, True, False], [6, False, False],
+                                                [7, True, True]]}},
+    # the configuration switch: flipped between loads; a document id that is no NmlId loads only while it is off
+    {"kind": "history", "session": {"seeds": {"A": 41, "B": 42}, "steps": [
+        ["load", "A", "NeuroMLHdf5Loader.load[badid]"], ["toggle", False], ["load", "A", "NeuroMLHdf5Loader.load[badid]"],
+        ["load", "B", "NeuroMLXMLParser+NetworkBuilder[badid]"], ["load", "A", "NeuroMLHdf5Loader.load"],
+        ["toggle", True], ["load", "A", "NeuroMLHdf5Loader.load[badid]"], ["load", "A", "NeuroMLHdf5Loader.load"]]}},
+    # error paths and the files of the second pass, twice and after each other
+    {"kind": "history", "session": {"seeds": {"A": 51, "B": 52}, "steps": [
+        ["load", "A", "NeuroMLLoader.load[notnml]"], ["load", "A", "read_neuroml2_file[missing]"],
+        ["load", "A", "read_neuroml2_file[badext]"], ["load", "A", "NeuroMLHdf5Loader.load[nonet,optimized]"],
+        ["load", "B", "NeuroMLHdf5Loader.load[h5inc]"], ["load", "A", "read_neuroml2_file[h5inc]"],
+        ["load", "A", "_read_neuroml2[direct]"], ["load", "A", "_read_neuroml2[direct]"],
+        ["load", "B", "NeuroMLXMLParser+NetworkBuilder[expl]"], ["load", "A", "NeuroMLLoader.load[notnml]"],
+        ["load", "A", "read_neuroml2_string[h5-include,optimized]"], ["load", "A", "read_neuroml2_file[noincludes]"]]}},
+    # all merges of short hand-made sequences: one pair per table of the builder (seeds found by making that table
+    # class-level: these pairs then have merges that differ from solo)
+    {"kind": "crafted", "case": {"seed": 0, "features": ["loc", "loc"]}},          # populations
+    {"kind": "crafted", "case": {"seed": 0, "features": ["proj", "elec"]}},        # projections
+    {"kind": "crafted", "case": {"seed": 1, "features": ["inp", "inp"]}},          # input_lists
+    {"kind": "crafted", "case": {"seed": 0, "features": ["elec", "elec"]}},        # projection_syns
+    {"kind": "crafted", "case": {"seed": 1, "features": ["fin", "fin"]}},          # projection_types
+    {"kind": "crafted", "case": {"seed": 6, "features": ["cont", "cont"]}},        # projection_syns_pre
+    {"kind": "crafted", "case": {"seed": 2, "features": ["proj", "proj"]}},        # weightDelays
+    {"kind": "crafted", "case": {"seed": 4, "features": ["dangling", "inp"]}},
+    # loads that overlap in time: HDF5 including HDF5; a load from inside a handler call (depth 1 and 2); the real
+    # parsers of two / three builds stepped in an interleaving, the first one finishing while the others are active
+    {"kind": "overlap", "case": {"seeds": {"A": 2, "B": 5}, "mode": "h5-in-h5"}},
+    {"kind": "overlap", "case": {"seeds": {"A": 2, "B": 5}, "mode": "callback", "spec": {
+        "outer": "h5", "set": "A", "at": 0.5, "inner": "B|NeuroMLHdf5Loader.load"}}},
+    {"kind": "overlap", "case": {"seeds": {"A": 2, "B": 5}, "mode": "callback", "spec": {
+        "outer": "xml", "set": "A", "at": 0.0, "inner": {"outer": "h5-noembed", "set": "B", "at": 0.999,
+                                                         "inner": "A|read_neuroml2_file[h5,optimized]"}}}},
+    {"kind": "overlap", "case": {"seeds": {"A": 2, "B": 5}, "mode": "stepped", "builds": [["A", "h5"], ["B", "h5"]],
+                                 "spec3": ["preempt-a-after-decl", 0.3, 0.5, 1]}},
+    {"kind": "overlap", "case": {"seeds": {"A": 2, "B": 5}, "mode": "stepped",
+                                 "builds": [["A", "h5-simple"], ["A", "h5-simple"], ["B", "xml"]],
+                                 "spec3": ["round-robin-k", 0.3, 0.5, 2]}},
     # hand-built optimized containers used before an optimized load (`OptimizedList.__init__(indices={})`)
     {"kind": "history", "session": {"seeds": {"A": 21, "B": 22}, "steps": [
         ["use"], ["load", "A", "NeuroMLHdf5Loader.load[optimized]"], ["load", "B", "read_neuroml2_file[h5,optimized]"],
@@ -970,7 +2086,7 @@ CORPUS = [
 
 
 def check_table(ctx):
-    """driver's reading of the generated table vs the translator's own"""
+    """driver's reading of the generated tables vs the translators' own; the two translators against each other"""
     rc, out = fw.run_driver("C07", [json.dumps({"op": "table"})])
     ctx.corr_evals += 1
     if rc != 0 or len(out) != 1:
@@ -980,30 +2096,91 @@ def check_table(ctx):
     ctx.extra["glue"]["model_cfg_shared_tables"] = m.get("cfg")
     if sorted(m.get("violating", [])) != _GLUE.get("violating", []) or not m.get("wf"):
         ctx.disagree("table", "violating variables", _GLUE.get("violating"), m)
+    h = _GLUE.get("handlers", {})
+    if sorted(m.get("reuseViolating", [])) != h.get("violating"):
+        ctx.disagree("table", "per-object violating attributes", h.get("violating"), m.get("reuseViolating"))
+    if m.get("cfg") != m.get("handlersCfg"):
+        ctx.disagree("table", "which NetworkBuilder tables are class-level: glue_extract vs handler_extract",
+                     m.get("cfg"), m.get("handlersCfg"))
+    if m.get("builderResets") != (not h.get("builder_stale")) or m.get("parserResets") != (not h.get("parser_stale")):
+        ctx.disagree("table", "reset flags", [h.get("builder_stale"), h.get("parser_stale")],
+                     [m.get("builderResets"), m.get("parserResets")])
+    ctx.extra["handlers"]["model_variant"] = {"builderResets": m.get("builderResets"), "parserResets": m.get("parserResets"),
+                                              "handlersPrivate": m.get("handlersPrivate"), "useIsModel": m.get("useIsModel")}
     for v in _GLUE.get("violating", []):
         key = "C07:shared-mutable:" + v
         if key in fw.known_findings("C07"):
             ctx.fail(key, "shared mutable variable read before written: " + v, {"kind": "table", "var": v})
 
 
+def run_case(ctx, c, pool, cap):
+    c = json.loads(json.dumps(c))
+    k = c["kind"]
+    if k == "interleave":
+        interleave_case(ctx, c["case"])
+    elif k == "crafted":
+        crafted_case(ctx, c["case"], cap)
+    elif k == "builder-reuse":
+        builder_reuse_case(ctx, c["case"])
+    elif k == "parser-reuse":
+        parser_reuse_case(ctx, c["case"])
+    elif k == "history":
+        run_session(ctx, c["session"], pool)
+    elif k == "env":
+        env_witness(ctx)
+    elif k == "overlap":
+        overlap_case(ctx, c["case"])
+
+
 def run(ctx):
+    import time
     if not _GLUE:
         regenerate(ctx)
     check_table(ctx)
-    pool = ThreadPoolExecutor(max_workers=8)
+    pool = ThreadPoolExecutor(max_workers=4)
+    thorough = ctx.tier == "thorough"
+    cap = 4000 if thorough else 1000     # exhaustive up to C(14,7) = 3432 merges (two sequences of length <= 7) / C(12,6)
+    # a broken obligation widens the search: fully for the cheap streams, 3x for the ones that write files / start processes
+    m_cheap, m_dear = ctx.search_mult, min(ctx.search_mult, 3)
+    secs = ctx.extra.setdefault("stream_seconds", {})
+
+    def timed(name, t0):
+        secs[name] = round(secs.get(name, 0) + time.time() - t0, 1)
     try:
+        t0 = time.time()
         for c in CORPUS:
-            if c["kind"] == "interleave":
-                interleave_case(ctx, json.loads(json.dumps(c["case"])))
-            else:
-                run_session(ctx, json.loads(json.dumps(c["session"])), pool)
-        ni = ctx.n(14, 120) * ctx.search_mult
-        for _ in range(ni):
-            interleave_case(ctx, gen_interleave_case(ctx.rng, ctx.n(4, 6)))
+            run_case(ctx, c, pool, cap)
+        env_witness(ctx)
+        timed("corpus", t0)
+        # all merges of short hand-made sequences
+        t0 = time.time()
+        for _ in range(ctx.n(16, 80) * m_cheap):
+            crafted_case(ctx, gen_crafted_pair(ctx.rng), cap)
+        flush_crafted(ctx)
+        timed("crafted", t0)
+        # recorded sequences: two builders, three builders
+        t0 = time.time()
+        for i in range(ctx.n(12, 100) * m_dear):
+            interleave_case(ctx, gen_interleave_case(ctx.rng, ctx.n(4, 6), three=(i % 4 == 3)))
         flush_model(ctx)
-        ns = ctx.n(7, 45) * ctx.search_mult
-        for _ in range(ns):
+        timed("recorded", t0)
+        # one builder / one parser object, several documents
+        t0 = time.time()
+        for _ in range(ctx.n(8, 60) * m_dear):
+            builder_reuse_case(ctx, gen_builder_reuse_case(ctx.rng))
+        for _ in range(ctx.n(6, 40) * m_dear):
+            parser_reuse_case(ctx, gen_parser_reuse_case(ctx.rng))
+        flush_reuse(ctx)
+        timed("reuse", t0)
+        # loads that overlap in time
+        t0 = time.time()
+        for i in range(ctx.n(12, 90) * m_dear):
+            overlap_case(ctx, gen_overlap_case(ctx.rng, i))
+        timed("overlap", t0)
+        t0 = time.time()
+        for _ in range(ctx.n(7, 45) * m_dear):      # one fresh process per distinct action
             run_session(ctx, gen_session(ctx.rng, ctx.rng.randint(8, 16)), pool)
+        timed("history", t0)
     finally:
         pool.shutdown(wait=True)
 
@@ -1017,13 +2194,12 @@ def replay(ctx, payload):
             pass
     pool = ThreadPoolExecutor(max_workers=4)
     try:
-        if case.get("kind") == "interleave":
-            interleave_case(ctx, case["case"])
-            flush_model(ctx)
-        elif case.get("kind") == "history":
-            run_session(ctx, case["session"], pool)
-        elif case.get("kind") == "table":
+        if case.get("kind") == "table":
             return {"fails": case.get("var") in _GLUE.get("violating", []), "violating": _GLUE.get("violating")}
+        run_case(ctx, case, pool, 4000)
+        flush_crafted(ctx)
+        flush_model(ctx)
+        flush_reuse(ctx)
     finally:
         pool.shutdown(wait=True)
     return {"fails": bool(ctx.failures or ctx.corr_disagreements), "failures": ctx.failures,
